@@ -12,493 +12,528 @@ Definition show_fres (r : fres) : string :=
   end.
 Definition check (rs : list rune) : string := digest (show_fres (format_res rs)).
 Definition full (rs : list rune) : string := show_fres (format_res rs).
-Eval vm_compute in ("<<<M3524>>>" ++ check (runes_of_ascii "// top
-options // c0a
-  // c0b
-{ // c1
-StringPrefixLenType = // c3a
-  // c3b
-u32
-    // c4
-; // c5
-ArrayPrefixLenType // c6
-= // c7
-u8 // c8
-; FixedStringPadFromLeft
-    // c10
-=
-    // c11
-false // c12
-; // c13
-} // c14
-packet Logon {
-    // c17
-i8 // c18a
-  // c18b
-venue
-    // c19
-,
-    // c20
-int16 f1 , zchar[
-    // c24
-8 // c25a
-  // c25b
-] // c26a
-  // c26b
-Acct // c27a
-  // c27b
-, repeat // c29a
-  // c29b
-InNote16 // c30a
-  // c30b
-{ // c31
-InQty73 // c32
-{
-    // c33
-float32 // c34
-tag7
-    // c35
-, // c36
-}
-    // c37
-, // c38a
-  // c38b
-f32 // c39
-Acct
-    // c40
-,
-    // c41
-zchar[ // c42
-5 // c43
-]
-    // c44
-sym
-    // c45
-, // c46a
-  // c46b
-} , // c48
-uint16
-    // c49
-Side2
-    // c50
-, // c51
-i32 // c52a
-  // c52b
-lastPx , } // c55a
-  // c55b
-packet // c56a
-  // c56b
-Fill // c57
-{
-    // c58
-repeat
-    // c59
-InOrderid15 // c60
-{ zchar[ 8 ]
-    // c64
-sym // c65
-,
-    // c66
-repeat char[ // c68
-2 // c69a
-  // c69b
-] // c70a
-  // c70b
-OrderId // c71a
-  // c71b
-, // c72a
-  // c72b
-repeat // c73a
-  // c73b
-Logon // c74a
-  // c74b
-,
-    // c75
-InQty82 {
-    // c77
-char[] // c78a
-  // c78b
-Tail // c79a
-  // c79b
-, repeat Logon
-    // c82
-, float64 // c84a
-  // c84b
-price // c85
-, // c86a
-  // c86b
-f64 Side2 // c88a
-  // c88b
-,
-    // c89
-} ,
-    // c91
-char[ // c92
-12 // c93
-] // c94
-venue
-    // c95
-, char[
-    // c97
-4 ] // c99
-Px , } , // c103
-@rightPad ( // c105
-'0' // c106a
-  // c106b
-) char[ // c108a
-  // c108b
-2
-    // c109
-] // c110
-venue
-    // c111
-, // c112a
-  // c112b
-InPrice99 // c113
-{ InAcct72 // c115a
-  // c115b
-{
-    // c116
-u8 // c117a
-  // c117b
-pad0
-    // c118
-, } , // c121
-u32 OrderId // c123
-, // c124a
-  // c124b
-Logon , // c126a
-  // c126b
-}
-    // c127
-, // c128
-} // c129a
-  // c129b
-root
-    // c130
-packet // c131
-Reject
-    // c132
-{ // c133
-zchar[ // c134a
-  // c134b
-9
-    // c135
-] // c136a
-  // c136b
-msgKind // c137
-, // c138a
-  // c138b
-u32 // c139a
-  // c139b
-venue , u16
-    // c142
-seqNo
-    // c143
-@lengthOf( Body
-    // c145
-) // c146a
-  // c146b
-, match // c148a
-  // c148b
-venue // c149
-as Body // c151a
-  // c151b
-{ 57 // c153
-:
-    // c154
-Fill // c155a
-  // c155b
-, 8 // c157
-: // c158a
-  // c158b
-Logon // c159
-,
-    // c160
-}
-    // c161
-, u16 // c163a
-  // c163b
-Tail
-    // c164
-@calculatedFrom( // c165
-""CRC32""
-    // c166
-) // c167
-, // c168
-} // c169
-")).
-Eval vm_compute in ("<<<M968>>>" ++ check (runes_of_ascii "packet float  { repeat matchKey , char[] // " ++ [128512]%N ++ runes_of_ascii " emoji
-repeatCount
-`{ , }`
-, char[	00] a1 , char[] roots`" ++ [28040; 24687; 31867; 22411]%N ++ runes_of_ascii "` ,@rightPad
-    ( '0') repeatCount ,match
-MetaDataX as tag { ""`tick`"":
-tag , [	""it's"" ,42
-] :asx
+Eval vm_compute in ("<<<M4010>>>" ++ check (runes_of_ascii "
+packet
+    float 
+{ repeat
+    matchKey 
+, char[] 	 // " ++ [128512]%N ++ runes_of_ascii " emoji
+	repeatCount
+
+    `{ , }`,
+
+    char[ 
+00
+	]
+
+a1
+    ,
+    char[]
+
+roots
+	`" ++ [28040; 24687; 31867; 22411]%N ++ runes_of_ascii "` , @rightPad	( '0' ) repeatCount ,match
+MetaDataX
+    as  tag
+    { 
+""`tick`"": tag
+
+    ,
+[ ""it's"",
+42
+	]:	asx 
     // packet A { u8 x, }
-    , ""a	b"" :As 65535 : calculatedFrom 007:
-stringy , 007: Packet // " ++ [128512]%N ++ runes_of_ascii " emoji
-,} ,char[// " ++ [27880; 37322]%N ++ runes_of_ascii "
-0]//	t
-i8i8
-`a\`,
-} root packet chars { @calculatedFrom( ""packet""
-) // " ++ [27880; 37322]%N ++ runes_of_ascii "
-i64_ string_ , match Pad // " ++ [128512]%N ++ runes_of_ascii " emoji
-as MetaDataX {
-    0123456789  :repeatCount ,	[
-""" ++ [128512]%N ++ runes_of_ascii """] :a1  ,[ """ ++ [233]%N ++ runes_of_ascii "t" ++ [233]%N ++ runes_of_ascii """ ,
-7
-, //	t
-""x y""	, 00	]
-:
+  , ""a	b""  :
+
+    As  65535 :	calculatedFrom
+007 :
+stringy ,
+
+007
+: Packet// " ++ [128512]%N ++ runes_of_ascii " emoji
+    ,	}  ,char[ // " ++ [27880; 37322]%N ++ runes_of_ascii "
+		0	]  //	t
+i8i8 
+`a\`
+,
+	}
+root  packet
+
+chars
+    {
+@calculatedFrom( 
+""packet""	)	// " ++ [27880; 37322]%N ++ runes_of_ascii "
+
+i64_ string_ , match
+Pad // " ++ [128512]%N ++ runes_of_ascii " emoji
+as
+MetaDataX
+    {
+0123456789 : 
+repeatCount ,
+    [
+	""" ++ [128512]%N ++ runes_of_ascii """
+    ]
+: a1
+,
+
+[ 
+""" ++ [233]%N ++ runes_of_ascii "t" ++ [233]%N ++ runes_of_ascii """
+    , 
+7	, //	t
+""x y""
+	,  00 ] :
 //
 // a // b
-int, } ,repeat
-Foo`say ""hi""`,@lengthOf(	As
-) u32 leftPad
-    @lengthOf( zchar	)// a // b
+
+	int
+,}
+    ,
+repeat
+Foo
+	`say ""hi""`
+
 ,
-    // " ++ [128512]%N ++ runes_of_ascii " emoji
-    }// c
-packet u128	{@calculatedFrom(
-""`tick`""
-    // packet A { u8 x, }
-    ) float Z9_ ``
-,string packetx ,
-// @lengthOf(
+    @lengthOf(
+
+As 
+)u32 
+leftPad
+@lengthOf(  zchar
+    ) 	 // a // b
+	,
+	    // " ++ [128512]%N ++ runes_of_ascii " emoji
+	}	// c
+  packet 
+u128 {	@calculatedFrom(""`tick`""  
+      // packet A { u8 x, }
+	  )float	Z9_``
+
+,
+	string packetx
+	, 
+	// @lengthOf(
 // packet A { u8 x, }
-@leftPad ( '\x00'
+	@leftPad  ( '\x00'
+
 )
 uint8
-metadata , @leftPad
-()
-    uint32 a1 `two words` ,
-@tag(
-    0123456789
-// packet A { u8 x, }
-// packet A { u8 x, }
-)  repeat zchar[ 42	] pack`two words` , repeat stringy
-    `line1
+    metadata,
+
+    @leftPad () uint32
+    a1
+
+    `two words`,
+
+@tag(0123456789
+	// packet A { u8 x, }
+  	// packet A { u8 x, }
+  )
+
+repeat zchar[
+42	]
+	pack
+`two words`
+	,
+repeat stringy`line1
 line2`
-    , uint8x `" ++ [233]%N ++ runes_of_ascii "`, falsey `say ""hi""` ,
-} packet a1{ uint16
-float , @lengthOf( string_)	char[ 0123456789 ] BodyLength @lengthOf( charz /// triple
+    , uint8x
+	`" ++ [233]%N ++ runes_of_ascii "`,
+
+    falsey`say ""hi""` ,}
+packet
+
+    a1 {
+
+    uint16
+
+    float ,
+    @lengthOf( string_
+    ) char[
+
+0123456789] BodyLength
+
+    @lengthOf(
+	charz/// triple
+    )
+	    // `tick` ""quote"" 'q'
+
+	`say ""hi""`,	@rightPad
+	(
+    '\x00' )Z9_
+    @lengthOf(
+
+zchar  ),
+    calculatedFrom@lengthOf( 
+pack  )
+	`tab	here`,
+@lengthOf(
+
+    MetaDataX )
+	@calculatedFrom( 
+""abc""
+)	@calculatedFrom(
+
+    ""a\\""
 )
-    // `tick` ""quote"" 'q'
-    `say ""hi""`, @rightPad	( '\x00'
-)	Z9_ @lengthOf(zchar
-)  , calculatedFrom @lengthOf(pack
-)
-`tab	here`
-    ,
-    @lengthOf( MetaDataX)@calculatedFrom( ""abc"" )
-@calculatedFrom( ""a\\"" ) match
-falsey //
+match	falsey	//
 as
-body  {// " ++ [27880; 37322]%N ++ runes_of_ascii "
-""a\""b"" : o //x
-,255:uint8x , [ // `tick` ""quote"" 'q'
-65535 ]: BodyLength } , /// triple
-char[]
-x_y_z
-,// trailing space 
+body{ 	 // " ++ [27880; 37322]%N ++ runes_of_ascii "
+	""a\""b"":  o  //x
+, 255
+:
+    uint8x ,	[ // `tick` ""quote"" 'q'
+65535]
+: 
+BodyLength} , 	 /// triple
+	  char[] x_y_z
+    , // trailing space 
+
 @tag(
+    // trailing space 
+      /// triple
+      0  ) int16
+    x
+
+`crlf
+line`,
+
+    match	Foo
+
+as 
+zchar
+	{
+    """ ++ [233]%N ++ runes_of_ascii "t" ++ [233]%N ++ runes_of_ascii """	:
+    u128, }
+
+    ,
+	@lengthOf(x_y_z )
+As
+
+    @calculatedFrom(
+	""packet"" 
+) , repeat
+
+Header { string_ 
+`{ , }`, match chars
+as uint8x	{""it's""
+
+:	lengthOf
+
+    ,  [
+
+""\n""
+, 3
+,""CRC32"",	// a // b
+		10  
+  // " ++ [27880; 37322]%N ++ runes_of_ascii "
+    , 
+""" ++ [28040; 24687]%N ++ runes_of_ascii """]: falsey }
+
+, repeat
+    char[]	o
+
+`
+`
+	,  i32	len
+	@calculatedFrom(
+
+    """ ++ [233]%N ++ runes_of_ascii "t" ++ [233]%N ++ runes_of_ascii """
+)  `" ++ [28040; 24687; 31867; 22411]%N ++ runes_of_ascii "` ,	}	// trailing space 
+  	, 	 // " ++ [27880; 37322]%N ++ runes_of_ascii "
+    }
+
+")).
+Eval vm_compute in ("<<<M1057>>>" ++ check (runes_of_ascii "packet Foo
+{ @lengthOf(chars ) @leftPad (
+    //x
+    ) repeat
+    metadata
+// @lengthOf(
+// c
+{
+// packet A { u8 x, }
+// " ++ [128512]%N ++ runes_of_ascii " emoji
+_x,u body , match A as Logon { [ ""\" ++ [233]%N ++ runes_of_ascii """ ,10 ,	7 , """" , 0
+//
+// @lengthOf(
+]
+    // packet A { u8 x, }
+    :	stringy, """ ++ [128512]%N ++ runes_of_ascii """
+    // `tick` ""quote"" 'q'
+    : msg_type ,} , uint16
+    asx
+@calculatedFrom(
+    """ ++ [233]%N ++ runes_of_ascii "t" ++ [233]%N ++ runes_of_ascii """	)
+, } , @lengthOf(
+metadata
+    ) match
+matchKey
+as o
+//x
+// `tick` ""quote"" 'q'
+{[ 65535
+,	255 ]: rootA,
+} , @lengthOf(
+    Z9_ )
+match Header as
+o{ 4294967296 : pack , 65535 : MetaDataX
+,  ""CRC32"" : leftPad ,
+[ ""{,}""] :	calculatedFrom
+    , //x
+""" ++ [28040; 24687]%N ++ runes_of_ascii """ // packet A { u8 x, }
+: o ""a\\"" :u
+    ,
+    }
+, @tag( 42 ) @lengthOf( options1	) @lengthOf( o) // c
+match  options1 // `tick` ""quote"" 'q'
+as uint8x{ [
+//x
+// " ++ [27880; 37322]%N ++ runes_of_ascii "
+1 , ""CRC32""	, ""a\\""
+,
+//x
+// c
+1
+, ""// no comment"" , 007  ]
+// a // b
+// `tick` ""quote"" 'q'
+:
+int 0	: repeatCount ,0123456789  :f32a
+[
+//x
+// @lengthOf(
+255, ""\" ++ [233]%N ++ runes_of_ascii """ ,
+""a\\"" ]
+:asx
+,1 : Header
+    // trailing space 
+    , } , match	tag as _x // a // b
+{00
+    : lengthOf ,// " ++ [27880; 37322]%N ++ runes_of_ascii "
+}  , repeat char[] i64_
+,match
+    // " ++ [27880; 37322]%N ++ runes_of_ascii "
+    msg_type as Pad // c
+{// a // b
+""// no comment""
+:asx ,	[
+""" ++ [28040; 24687]%N ++ runes_of_ascii """
+    ,
+""\" ++ [233]%N ++ runes_of_ascii """ ] // c
+:x
+    ,
+0:
+u , /// triple
+10
+:
+Foo
+, } ,
 // trailing space 
 /// triple
-0
+@rightPad
+    ( )
+    //	t
+    u8x
+    ,@leftPad (	'\x00')
+u64
+crc @calculatedFrom( ""`tick`""
 )
-int16	x `crlf
-line`
-,match Foo as zchar {""" ++ [233]%N ++ runes_of_ascii "t" ++ [233]%N ++ runes_of_ascii """	:
-u128 , }, @lengthOf(	x_y_z) As @calculatedFrom(""packet""),repeat
-Header{string_ `{ , }` , match	chars as
-    uint8x {
-""it's"" : lengthOf ,[ ""\n""  ,	3 , ""CRC32""
-,// a // b
-10
-    // " ++ [27880; 37322]%N ++ runes_of_ascii "
-    , """ ++ [28040; 24687]%N ++ runes_of_ascii """ ]
-: falsey } ,
-repeat char[] o
 `
-`
-    ,
-i32 len@calculatedFrom(""" ++ [233]%N ++ runes_of_ascii "t" ++ [233]%N ++ runes_of_ascii """ ) `" ++ [28040; 24687; 31867; 22411]%N ++ runes_of_ascii "` ,
-    } // trailing space 
-, // " ++ [27880; 37322]%N ++ runes_of_ascii "
-}
-")).
-Eval vm_compute in ("<<<M948>>>" ++ check (runes_of_ascii "//
-root packet
-    T
-    { match Foo as Packet {
-""\n"":
-// c
-// a // b
-roots""abc"": Foo ,3 : packetx,
-}, match Z9_ as u8x { 65535 :
-tag , }	, Pad{
-i16 BodyLength ,
-    stringy
-    chars, uint8 trueish
-    /// triple
-    ,
-} ,	pack {
-    match//	t
-asx
+` , @lengthOf( rootA ) zchar[ 00 ]	roots
+, }MetaData
+MetaDataX
+{} packet
+    len // " ++ [27880; 37322]%N ++ runes_of_ascii "
+{  repeat Z9_//x
+{ i8
+    //
+    i8i8,
+    }, match repeatCount
 as
-stringy { 0 :matchKey } // " ++ [128512]%N ++ runes_of_ascii " emoji
-,	repeat
-char uint8x
-, }
-// @lengthOf(
-//
-,
-    @calculatedFrom( ""\n"")
-    body,
-_x , string tag , char[ // packet A { u8 x, }
-3 ]rootA`a\`
-    // c
-    ,
-@calculatedFrom(""\n"" )
-@lengthOf( uint8x
-    ) char[] A , i8
-    // @lengthOf(
-    string_`{ , }` ,
-    // packet A { u8 x, }
-    } packet body {
-    char[] o	, string options1 ,
-repeat // a // b
-char[]
-    pack, u128{ packetx options1
-    ,
-repeat
-Packet
-,repeat // trailing space 
-int `` // " ++ [27880; 37322]%N ++ runes_of_ascii "
-, u16
-Logon	,	} ,  match
-    T as x_y_z {
-    255 : Header ,
-    1 :
-    f32a , """ ++ [128512]%N ++ runes_of_ascii """
-:	Pad
-// a // b
-// a // b
-""abc"" :
-    /// triple
-    A } ,	@tag(// " ++ [27880; 37322]%N ++ runes_of_ascii "
-00
-// " ++ [128512]%N ++ runes_of_ascii " emoji
-// @lengthOf(
-) int8 i8i8 @calculatedFrom( """ ++ [28040; 24687]%N ++ runes_of_ascii """) `tab	here`, @lengthOf(
-    matchKey )
-repeat uint16
-// a // b
 // trailing space 
-roots `doc`
-    ,f64 a1 ,@lengthOf( metadata
+// " ++ [27880; 37322]%N ++ runes_of_ascii "
+asx
+{ ""{,}""
+: tag , 65535 // trailing space 
+: Foo	, 7 : f32a , [
+    """ ++ [28040; 24687]%N ++ runes_of_ascii """ , 0 ]
+    ://	t
+T	,
+    [ 00 , """ ++ [128512]%N ++ runes_of_ascii """
     // " ++ [27880; 37322]%N ++ runes_of_ascii "
-    )
-    // @lengthOf(
-    Foo
-@lengthOf(
-msg_type )	`" ++ [233]%N ++ runes_of_ascii "` , } packet /// triple
-tag{@rightPad
-( '0' )char[]
-    x
-    @calculatedFrom(
-    ""a\\"")
-    ,
-    float  @calculatedFrom( ""\" ++ [233]%N ++ runes_of_ascii """  ) `
-`// " ++ [27880; 37322]%N ++ runes_of_ascii "
-,
-@calculatedFrom(
-    ""{,}"" ) repeat zchar[ 00 ]
-    i64_  `" ++ [28040; 24687; 31867; 22411]%N ++ runes_of_ascii "`
-,
-char[ 007
-    ] charz ,
-    } packet metadata {
-    string_ {
-    repeat A
-    , repeat char[// trailing space 
-00
-] A// " ++ [128512]%N ++ runes_of_ascii " emoji
-, i32 i64_ @lengthOf( body )  `" ++ [233]%N ++ runes_of_ascii "`
-    , //x
-repeat
-    //x
-    zchar `say ""hi""` ,} ,
-}")).
-Eval vm_compute in ("<<<M25>>>" ++ check (runes_of_ascii "root
-    packet u128{pack @lengthOf(MetaDataX)	`say ""hi""` ,repeat lengthOf {
-    int8 o
-    `crlf
-line` ,
-    } // " ++ [27880; 37322]%N ++ runes_of_ascii "
-, @lengthOf( tag
-    ) char[
+    ]
+: x_y_z 0123456789 : MetaDataX, }
+    , char[
     007
-    ] chars @lengthOf(MetaDataX ) , u
-    @calculatedFrom( ""\n"" )// `tick` ""quote"" 'q'
-, @lengthOf(  Z9_
-    ) u32 A
-@lengthOf( charz ) ,u16 float@lengthOf(
-    As ) ,A u128
-// packet A { u8 x, }
-// packet A { u8 x, }
-`a\` /// triple
-, x_y_z@lengthOf(stringy  )
-`a\` ,
+]
+x `" ++ [233]%N ++ runes_of_ascii "`
+//	t
+// " ++ [27880; 37322]%N ++ runes_of_ascii "
+,@leftPad ( )
+i16 Logon@lengthOf( MetaDataX ) ,
+} packet u8x {
 }
-    root packet x_y_z
-    {@lengthOf( crc	)  i64 pack // " ++ [27880; 37322]%N ++ runes_of_ascii "
-@lengthOf(
-    float ) `say ""hi""`
-, }MetaData  uint8x{ }
-    root packet  trueish {  zchar[ 4294967296  ] float@lengthOf( matchKey
-    )/// triple
-,@lengthOf( o
-    ) repeat float rootA
-    , @tag(  7	) int64 // " ++ [128512]%N ++ runes_of_ascii " emoji
-falsey@lengthOf( options1 ) ,Logon// @lengthOf(
-{ tag
-@lengthOf(a1 ) , asx `// not a comment` , float32 zchar
-    ,Pad @calculatedFrom( ""`tick`"" )// @lengthOf(
-,
-    } , // trailing space 
-@lengthOf( int
-    ) repeat // a // b
-rootA// trailing space 
-u128 ,
-    repeat char[] leftPad , int8 _x // a // b
-,
-    Packet `` ,
-    // " ++ [27880; 37322]%N ++ runes_of_ascii "
-    match
-len	as uint8x { ""a	b""
-:
-lengthOf
-,""\" ++ [233]%N ++ runes_of_ascii """ :pack
-[ // a // b
-""x y""  ,""packet""
-, """ ++ [128512]%N ++ runes_of_ascii """
-    // " ++ [27880; 37322]%N ++ runes_of_ascii "
-    ,	""\" ++ [233]%N ++ runes_of_ascii """ , 255 , ""{,}""
-    ]:
-lengthOf
-    , [ ""abc"", 00  ,
-    ""a\\"" , ""// no comment""
-, 00 , 007, 0 , ""packet""]: Packet  }
-    // " ++ [27880; 37322]%N ++ runes_of_ascii "
-    , @leftPad()
-    u i64_ ,
-}
-packet trueish { }
 ")).
+Eval vm_compute in ("<<<M226>>>" ++ check (runes_of_ascii "root packet Foo { @tag(00	)
+char[] _x
+@calculatedFrom(
+    // trailing space 
+    ""{,}"" ) ,@rightPad	( '0' )f32 Pad@calculatedFrom( ""abc""
+// @lengthOf(
+// " ++ [27880; 37322]%N ++ runes_of_ascii "
+)
+, @rightPad
+    ( '0' )  repeat falsey string_
+// @lengthOf(
+// " ++ [128512]%N ++ runes_of_ascii " emoji
+`{ , }` , @calculatedFrom( ""abc"" )//
+@tag(
+00 ) rootA@calculatedFrom( ""it's"" ), BodyLength/// triple
+lengthOf `doc` , Z9_{ f64 Z9_ ,T
+charz
+    `" ++ [233]%N ++ runes_of_ascii "`
+, x {
+tag crc,
+    repeat uint32	chars
+, zchar[ 0123456789 ]roots ,
+int64 charz@calculatedFrom(
+    ""it's"" ) `" ++ [28040; 24687; 31867; 22411]%N ++ runes_of_ascii "` ,} , i8 msg_type//	t
+@lengthOf( options1 )
+,
+    } ,
+    repeat MetaDataX { matchKey i64_ , string tag @lengthOf(
+    msg_type )// trailing space 
+, tag { string f32a
+,// " ++ [27880; 37322]%N ++ runes_of_ascii "
+match crc as u128
+{	4294967296  :
+    Z9_ ,""" ++ [28040; 24687]%N ++ runes_of_ascii """ : a1 ,//	t
+65535 : T , [ ""CRC32"" ,
+1
+, ""packet"" ]
+: x_y_z , } ,	string matchKey @calculatedFrom(""" ++ [28040; 24687]%N ++ runes_of_ascii """ ) `two words`	, } , char[ 65535 // trailing space 
+] Header@calculatedFrom( ""CRC32"" ) `// not a comment` ,
+} ,match
+Foo as metadata	{
+[""1"" ,
+//	t
+// " ++ [27880; 37322]%N ++ runes_of_ascii "
+""""
+] :  metadata	[ 0123456789  ] : tag ,
+""1"" :  T
+//	t
+// a // b
+4294967296
+    :x , // packet A { u8 x, }
+0 :
+trueish ,	""{,}"" :  metadata , // a // b
+}, zchar[255
+]
+    u128
+@lengthOf(float ) ,// trailing space 
+} packet a1
+{ @rightPad ( ' ' ) @tag( 7//x
+)@tag( 10 )
+//	t
+// trailing space 
+Header { Packet @lengthOf( lengthOf ) , string
+options1
+,
+match zchar as pack
+{ """" :o , """ ++ [28040; 24687]%N ++ runes_of_ascii """ :	leftPad  , """ ++ [28040; 24687]%N ++ runes_of_ascii """ :
+crc } ,	Z9_
+//x
+// trailing space 
+{
+    //
+    len//	t
+int ,  } ,
+    },}
+")).
+Eval vm_compute in ("<<<M995>>>" ++ check (runes_of_ascii "// " ++ [128512]%N ++ runes_of_ascii " emoji
+packet options1 {
+match
+    MetaDataX  as
+matchKey
+{ 4294967296:  i8i8 ,  7	: // a // b
+Header ,
+    // trailing space 
+    } ,
+    crc Pad `doc`, @leftPad
+/// triple
+//
+( ) repeat o f32a `u8 x,` , @lengthOf( calculatedFrom
+    ) repeat int32 body
+,// trailing space 
+@tag(0123456789)
+@tag( 42 ) @calculatedFrom( ""\n"" ) Foo { A	,//x
+} , @tag(
+    3 )@tag(3	)char	Header
+    `it's`
+    // packet A { u8 x, }
+    , repeat float { char[ 007
+    // `tick` ""quote"" 'q'
+    ] // " ++ [27880; 37322]%N ++ runes_of_ascii "
+u8x `tab	here` ,	f32a
+    { // packet A { u8 x, }
+match As as MetaDataX {4294967296 :u
+, 1
+    // @lengthOf(
+    :Pad ,
+// " ++ [128512]%N ++ runes_of_ascii " emoji
+//x
+3 // " ++ [27880; 37322]%N ++ runes_of_ascii "
+:  x_y_z,
+""" ++ [28040; 24687]%N ++ runes_of_ascii """
+    :
+asx , 1
+    // " ++ [27880; 37322]%N ++ runes_of_ascii "
+    :matchKey
+// `tick` ""quote"" 'q'
+// packet A { u8 x, }
+,  """"
+:leftPad,
+} // `tick` ""quote"" 'q'
+,
+repeat // `tick` ""quote"" 'q'
+i16
+float
+    `u8 x,` ,
+match
+chars as
+int {"""" : rootA , // c
+""packet"":f32a
+, [ ""a	b""  , 3
+    ,4294967296 , """ ++ [28040; 24687]%N ++ runes_of_ascii """
+    // " ++ [27880; 37322]%N ++ runes_of_ascii "
+    ]: Packet
+[
+""a\""b"" ,""a	b"" , 0123456789
+    , 255 , ""\n""
+,
+    ""a	b"" ,
+00
+, ""1""
+    ]
+: //
+stringy 0123456789  : lengthOf ,10 :i64_
+, }
+    , matchKey{
+// a // b
+//	t
+repeat int16 zchar `crlf
+line`
+    // " ++ [128512]%N ++ runes_of_ascii " emoji
+    ,
+    } ,
+} ,
+    } ,repeat Pad { float32
+trueish`// not a comment` ,
+    } , repeat char[
+    0] i64_ `say ""hi""` , @tag(65535 )
+    // c
+    u128
+, }")).
 Eval vm_compute in ("<<<M463>>>" ++ check (runes_of_ascii "packet
 options1
     { /// triple
@@ -571,705 +606,657 @@ Z9_	, char[	0123456789 ]
 packetx
 `crlf
 line`	,}")).
-Eval vm_compute in ("<<<M3646>>>" ++ check (runes_of_ascii "packet repeatCount {
-    match falsey as string_ {
-        65535 : crc,
-        [007, 65535, 65535] : i8i8,
+Eval vm_compute in ("<<<M1344>>>" ++ check (runes_of_ascii "packet As { }
+MetaData
+    // " ++ [128512]%N ++ runes_of_ascii " emoji
+    BodyLength { uint32
+Z9_ `// not a comment` , }
+    packet f32a
+    //x
+    { f64 T @lengthOf(	As	)`u8 x,` ,repeat
+i16 i64_ `" ++ [28040; 24687; 31867; 22411]%N ++ runes_of_ascii "` , char[
+007] falsey
+@lengthOf(  Pad )	,
+repeat
+leftPad
+{	u64 u8x
+,
+    char[]tag
+    ,	}// " ++ [128512]%N ++ runes_of_ascii " emoji
+, match As as len{ ""1"" :
+x_y_z ,	255 :
+    // c
+    len , 007: charz,
+    [ ""abc"" , 42, 10	, """ ++ [28040; 24687]%N ++ runes_of_ascii """ ,  ""it's""
+    ,//	t
+3
+    ] : // " ++ [27880; 37322]%N ++ runes_of_ascii "
+matchKey //	t
+, // `tick` ""quote"" 'q'
+} , // @lengthOf(
+} packet
+BodyLength { @calculatedFrom( ""// no comment""
+)@lengthOf( Logon ) @tag( 42 )
+//
+// " ++ [128512]%N ++ runes_of_ascii " emoji
+repeat rootA metadata
+,@tag(	4294967296)  repeat matchKey // @lengthOf(
+{ int8
+    pack
+,} ,
+    @tag(
+65535
+) @rightPad ( ) //
+@lengthOf( // " ++ [27880; 37322]%N ++ runes_of_ascii "
+Pad
+)uint8x `{ , }` ,  match  Foo
+as As {10 :
+    uint8x
+    ,0
+    : rootA // " ++ [128512]%N ++ runes_of_ascii " emoji
+, 007 : matchKey , [
+""x y"" ] :
+    u8x,}, float64 i64_
+@calculatedFrom( ""// no comment""// `tick` ""quote"" 'q'
+) , match
+    trueish as matchKey {
+// trailing space 
+// trailing space 
+""" ++ [233]%N ++ runes_of_ascii "t" ++ [233]%N ++ runes_of_ascii """:// trailing space 
+_x
+    , } ,
+chars @lengthOf( Packet) `crlf
+line` ,
+char[] x , } MetaData
+falsey //
+{ Z9_ options1
+``
+, } 	 ")).
+Eval vm_compute in ("<<<M3714>>>" ++ check (runes_of_ascii "packet a1 {
+    @rightPad(' ')
+    repeat a1,
+    //	t
+    repeat float32 i8i8 `two words`,
+    @lengthOf(A)
+    float zchar,
+    @rightPad('0')
+    uint32 o `doc`,
+    @calculatedFrom(""packet"")
+    repeat asx `crlf
+        line`,
+    @tag(007)
+    @calculatedFrom(""CRC32"")
+    repeat uint64 A `line1
+        line2`,
+    @leftPad('\x00')
+    // packet A { u8 x, }
+    //x
+    string stringy ``,
+    @rightPad('\x00')
+    @tag(255)
+    body @lengthOf(Z9_),
+    match x_y_z as falsey {
+        ""\" ++ [233]%N ++ runes_of_ascii """ : options1,
     },
-    @lengthOf(float)
-    T {
-        // " ++ [128512]%N ++ runes_of_ascii " emoji
-        char[] Packet @lengthOf(trueish),
-    },
-    uint64 Logon `doc`,
-    zchar[0] trueish @calculatedFrom(""// no comment""),
-    @lengthOf(a1)
-    repeat rootA i64_ `// not a comment`,
-    u64 u,
+    Logon falsey `say ""hi""`,
 }
 
-packet i64_ {
-    @rightPad(' ')
-    f64 float,// `tick` ""quote"" 'q'
-    match rootA as i8i8 {
-        [007, ""\n"", """ ++ [128512]%N ++ runes_of_ascii """, """ ++ [128512]%N ++ runes_of_ascii """] : lengthOf,
-    },
-    i16 Packet,
-    int16 lengthOf @calculatedFrom(""" ++ [28040; 24687]%N ++ runes_of_ascii """) `line1
-    line2`,
-    @calculatedFrom("""")
-    @calculatedFrom(""it's"")
-    zchar[007] As,
-    char[] i8i8 @lengthOf(zchar),
-    u16 packetx @lengthOf(falsey),
-    repeat len {
-        // c
-        u32 lengthOf,
-    },
-    match MetaDataX as u128 {
-        1 : u,
-        ""x y"" : u,
-        255 : i64_,
-        ""x y"" : falsey,
-        [1, ""1""] : repeatCount,
-        // packet A { u8 x, }
-    },
+packet Foo {
 }
 
 options {
-    asx = uint8;
-    matchKey = true
-    i64_ = false
-    Logon = char[];
-    A = 00
+    // @lengthOf(
+    // `tick` ""quote"" 'q'
+    f32a = ""a\""b"";
+    float = '0';
+    calculatedFrom = 65535;
+    msg_type = '0';
+    // trailing space 
+    A = """"
 }
 
-packet Packet {
-    // packet A { u8 x, }
-    uint32 float `it's`,
+root packet string_ {
+    match float as u128 {
+        [""\n""] : Packet,
+    },
+}
+
+packet charz {
+    lengthOf @calculatedFrom(""" ++ [28040; 24687]%N ++ runes_of_ascii """),
+    @leftPad(' ')
+    repeat chars `" ++ [28040; 24687; 31867; 22411]%N ++ runes_of_ascii "`,
+    match leftPad as a1 {
+        ""`tick`"" : string_,
+        // c
+        // c
+        10 : string_,
+        4294967296 : Foo,
+    },
 }")).
-Eval vm_compute in ("<<<M4461>>>" ++ check (runes_of_ascii "packet 
-
-// a // b
-
-	leftPad{
-	matchKey crc,	@lengthOf( u128	)
-
-    repeat
-	char[007	]
-	a1
-`
-` ,	repeat	// " ++ [128512]%N ++ runes_of_ascii " emoji
-	Z9_
-_x
-
-,
-
-@tag( 
-42 
-)
-@lengthOf(
-
-    body)@lengthOf(uint8x
-    )  repeat  As {
-
-matchKey 
-,
-lengthOf
-	@calculatedFrom(
-    // packet A { u8 x, }
-    ""it's""
-
-    ) 
-,
-
-    repeat
-zchar[255
-	] 
-body
-,  char[]
-	u@lengthOf(	A )
-
-    , }  ,
-
-    @leftPad ('0'  ) string body	// @lengthOf(
-  `// not a comment`	,
-    } packet
-    x_y_z{  }  root  packet
-
-T
-{
-repeat
-	char[
-
-3
-] Logon
-	    // trailing space 
-
-, 	 //x
-	  float
-    @lengthOf(
-	roots
-) `{ , }`
-    ,
-_x	T// " ++ [128512]%N ++ runes_of_ascii " emoji
-    ``  ,
-}packet	Pad {
-
-    @calculatedFrom(
-""packet"" )
-
-u16 repeatCount	@calculatedFrom(
-
-    """ ++ [233]%N ++ runes_of_ascii "t" ++ [233]%N ++ runes_of_ascii """
-
-    ) `// not a comment`	,
-    @tag(
-3)
-zchar[
-
-    4294967296 
-]repeatCount 
-, } MetaData body {  // packet A { u8 x, }
-u32
-matchKey
-, T  repeatCount 	 // " ++ [128512]%N ++ runes_of_ascii " emoji
-`
-`
-
-    ,
-
-    char[ // c
-  007  
-  // trailing space 
-	]
-
-    tag,
-	i8i8 // " ++ [128512]%N ++ runes_of_ascii " emoji
-  	asx ,
-
-    int  u8x 
-,	int32
-
-    Logon`say ""hi""`  // " ++ [128512]%N ++ runes_of_ascii " emoji
-    , 
-}
-")).
-Eval vm_compute in ("<<<M3511>>>" ++ check (runes_of_ascii "  options
-
-    { StringPrefixLenType  = u8;
-    ArrayPrefixLenType = u8
-;  FixedStringPadFromLeft= 
-true
-	;
-    FixedStringPadChar
-	= ' ' ;
-}	packet	Logout
-
-    { repeat  string
-Px
-	,
-	repeat
-string seqNo, InMsgkind64
-
-{uint16  OrderId
-, 
-char[]
-count ,	repeat	i32  venue,
-
-}	, }  packet	Heartbeat
-
-{
-
-float32 tag7
-    ,repeat
-
-    InPrice50 
-{ repeat char[5
+Eval vm_compute in ("<<<M650>>>" ++ check (runes_of_ascii "// `tick` ""quote"" 'q'
+packet
+Logon { @lengthOf( //
+Logon)	repeat f64// " ++ [27880; 37322]%N ++ runes_of_ascii "
+MetaDataX ,
+char[ 0
 ]
-lastPx
-, InRef42	{
-    u8  pad0  ,
-},	uint32 Acct ,
-repeat
-	Logout 
-, repeat
-
-    char[
-    5]
-
-Qty	, }
-    ,repeat
-InSeqno30
-
-{ repeat	Logout ,}
-	, @leftPad(
-	'0'
-) char[ 12]Acct ,
-
-char[]
-    Side2 , 
-repeat
-    string
-	msgKind  ,
-
-    }
-packet
-    Ack{
-	Heartbeat 
-,  char[
-
-8	]  seqNo ,	float64	clOrdID
-
-    , } 
-packet
-
-Trade  {char[]  OrderId
-	,f64 Side2
-
-    ,
-zchar[ 8
-]  f1  ,
-	string Qty
+    // `tick` ""quote"" 'q'
+    options1
 ,
+    // " ++ [27880; 37322]%N ++ runes_of_ascii "
+    repeat Foo
+    `a\`  , // `tick` ""quote"" 'q'
+@lengthOf( Header) u16 u128//x
+@calculatedFrom( // `tick` ""quote"" 'q'
+""\" ++ [233]%N ++ runes_of_ascii """
+) //	t
+,
+    @lengthOf(	len )Header // trailing space 
+{MetaDataX @calculatedFrom( ""a\""b""),
+i32 rootA @calculatedFrom(
+""a\""b"" //
+)	`" ++ [28040; 24687; 31867; 22411]%N ++ runes_of_ascii "`	,
+match A as
+packetx { [0123456789]	: rootA
+    , } ,
+    }
+    ,  }
+    options{
+Foo
+    =// c
+""CRC32""/// triple
+;} MetaData MetaDataX
+    { }packet lengthOf {// packet A { u8 x, }
+repeat char[  3
+] Pad,@calculatedFrom(  """ ++ [28040; 24687]%N ++ runes_of_ascii """ ) int16 roots
+@lengthOf(
+Logon )
+, MetaDataX
+{ //x
+char[]
+asx@lengthOf( calculatedFrom//x
+) // " ++ [128512]%N ++ runes_of_ascii " emoji
+, string
+    //
+    A@lengthOf( /// triple
+Logon ) ,
+char[]pack,}
+    /// triple
+    ,
+    repeat options1 u ,@tag( 1 )
+    repeat // c
+pack	trueish ,repeat string repeatCount
+, @calculatedFrom( """ ++ [28040; 24687]%N ++ runes_of_ascii """)  f32 float
+    @calculatedFrom(""{,}"" )  , }")).
+Eval vm_compute in ("<<<M357>>>" ++ check (runes_of_ascii "MetaData msg_type{ string
+charz , crc u8x  ,
+    u16 x_y_z
+    `u8 x,`
+, i64	zchar
+,
+    }
+    // @lengthOf(
+    packet T
+{
+@calculatedFrom( ""a\\"" ) uint16 chars @calculatedFrom(
+    ""x y"") `
+` , } packet pack // a // b
+{}
+    options { }	packet trueish
+{
+    // trailing space 
+    @calculatedFrom(//x
+""abc""	) match chars as lengthOf  {  [ 4294967296
+]
+: a1[""CRC32"" ,/// triple
+7	, ""1""
+, 4294967296// c
+,  ""a\\"" ,
+    0, 65535 , ""{,}""
+] :  a1 , }
+// packet A { u8 x, }
+// trailing space 
+, string	lengthOf  `" ++ [28040; 24687; 31867; 22411]%N ++ runes_of_ascii "` ,
+@lengthOf( // trailing space 
+x ) match
+charz as a1 { 255:// trailing space 
+Logon,
+    }, @calculatedFrom(
+""a	b""// a // b
+)  @tag(00
+// " ++ [27880; 37322]%N ++ runes_of_ascii "
+// `tick` ""quote"" 'q'
+)	@lengthOf( zchar ) body @lengthOf(
+    /// triple
+    msg_type)
+    , MetaDataX	@lengthOf( len ) /// triple
+`a\`/// triple
+, @rightPad
+( '\x00' ) @lengthOf(
+Packet
+    ) string u128// `tick` ""quote"" 'q'
+`u8 x,` // c
+,
+packetx @lengthOf(	o )
+, }
+// @lengthOf(
+")).
+Eval vm_compute in ("<<<M1084>>>" ++ check (runes_of_ascii "packet
+lengthOf { crc @calculatedFrom(
+"""" )  `two words` , @lengthOf(crc )
+    // c
+    @calculatedFrom( ""x y""
+    ) u16 Logon
+`line1
+line2`
+    ,
+    } MetaData u128{ } packet
+len {  match
+    options1 as pack { 00
+: BodyLength, }, @calculatedFrom( ""a	b""
+) asx Z9_ `` , @rightPad	( ) u32 calculatedFrom @lengthOf( asx)`doc`
+    , @calculatedFrom(
+    """ ++ [28040; 24687]%N ++ runes_of_ascii """	)uint8x , repeat zchar[ // " ++ [128512]%N ++ runes_of_ascii " emoji
+007 ]u128 ,
+    stringy { repeat zchar[ 3 ] A
+, repeat i64 o/// triple
+`` ,
+f32// @lengthOf(
+packetx
+    @calculatedFrom( ""\" ++ [233]%N ++ runes_of_ascii """ ) , packetx charz ,	}, match int as Z9_ { ""a\\"" :	crc
+// " ++ [128512]%N ++ runes_of_ascii " emoji
+// " ++ [128512]%N ++ runes_of_ascii " emoji
+, """"
+    /// triple
+    : trueish , [00 , ""\" ++ [233]%N ++ runes_of_ascii """  , 4294967296 ] : Packet
+,}
+    ,
+/// triple
+// packet A { u8 x, }
+u8
+// packet A { u8 x, }
+/// triple
+msg_type
+// @lengthOf(
+//
+@lengthOf(i64_ ) ,} root packet A{BodyLength @lengthOf( stringy ) ,
+    rootA
+As ,
+repeat BodyLength options1	`a\` ,}")).
+Eval vm_compute in ("<<<M1159>>>" ++ check (runes_of_ascii "root packet T
+    {
+@tag(0
+// c
+// `tick` ""quote"" 'q'
+)
+u64
+int
+// `tick` ""quote"" 'q'
+//
+, match rootA as BodyLength { ""it's"" : o , 10: int // a // b
+, ""packet"" : string_, [""abc"" // `tick` ""quote"" 'q'
+, 3
+    ,
+    0123456789 ,
+    007 ,7 , //
+3
+    ,007
+    ] : int,
+    } , match i64_ as
+// packet A { u8 x, }
+// trailing space 
+options1
+    { 0123456789
+: zchar , 00  :pack, } ,match
+// c
+// packet A { u8 x, }
+zchar as
+options1 {
+    ""it's""
+:matchKey  , ""1"" :// `tick` ""quote"" 'q'
+u128
+,  ""`tick`""  :
+    trueish
+    // packet A { u8 x, }
+    255 // " ++ [27880; 37322]%N ++ runes_of_ascii "
+:
+crc
+    , }  ,  } packet Z9_
+// `tick` ""quote"" 'q'
+// packet A { u8 x, }
+{ BodyLength@calculatedFrom(
+// " ++ [27880; 37322]%N ++ runes_of_ascii "
+// " ++ [27880; 37322]%N ++ runes_of_ascii "
+""x y"" ) `" ++ [28040; 24687; 31867; 22411]%N ++ runes_of_ascii "`
+, @lengthOf( metadata// packet A { u8 x, }
+) repeat i8i8
+    zchar
+`" ++ [28040; 24687; 31867; 22411]%N ++ runes_of_ascii "` ,zchar[
+255  ] uint8x,
+int8 Z9_@calculatedFrom(
+    """" ) , } // packet A { u8 x, }")).
+Eval vm_compute in ("<<<M3830>>>" ++ check (runes_of_ascii "
+
+  root packet 
+uint8x { 
+}  options
+
+{ o =
+        //x
+//
+    ' ';  x_y_z
+    = 0123456789
+stringy 
+=	""packet""  }
+
+packet  A { match
+
+falsey
+
+    as
+	string_{
+
+    """ ++ [28040; 24687]%N ++ runes_of_ascii """
+    :
+packetx ,
+    0 :  BodyLength
+,} // @lengthOf(
+,float32 	 // " ++ [27880; 37322]%N ++ runes_of_ascii "
+string_
+    @lengthOf( a1
+
+) ,
+    trueish
+    @calculatedFrom( 
+""abc"" ), @leftPad  //	t
+
+  ( 
+'0') string
+
+    matchKey @lengthOf(
+
+    x_y_z
+    )
+
+    ``	, leftPad 
+{
+	trueish
+    @calculatedFrom(
+""a\""b"" )  // c
+    ,} 
+,  // `tick` ""quote"" 'q'
+  @tag(
+1  
+      // trailing space 
+  ) 
+repeat
 float64
-	seqNo
-, repeat
-Logout
-	, }packet Order
-{f32
-    OrderId 
+
+    calculatedFrom	`{ , }` ,
+
+@leftPad  
+  // @lengthOf(
+  	('\x00'
+)match Z9_  //	t
+	  as
+	crc{[ 0 ]:	a1, //
+  },_x@lengthOf(	T
+) // trailing space 
+  ,
+x_y_z
+`" ++ [28040; 24687; 31867; 22411]%N ++ runes_of_ascii "`
+
+// c
+	  // `tick` ""quote"" 'q'
+
 ,repeat
 
-    u8 
-x,	Ack
-	,zchar[
-7
-    ]  Note
-    ,
-}
-
-root packet Logon {
-@rightPad (
-
-'\x00'
-
-    )
-	char[
-9
-]
-
-    f1
-    ,
+char[]Z9_  ,
     }
 
-")).
-Eval vm_compute in ("<<<M4038>>>" ++ check (runes_of_ascii "
-packet
-
-stringy  {	@tag( 	 //	t
-	  1)
-Logon@lengthOf(
-
-    roots 
-	// @lengthOf(
-    // " ++ [27880; 37322]%N ++ runes_of_ascii "
-  )
-, @tag(
-
-    4294967296 ) 
-repeat
-    leftPad  {match	metadata
-
-as // trailing space 
-  	u8x 
-{
-4294967296 :// " ++ [128512]%N ++ runes_of_ascii " emoji
-
-pack ""CRC32"" :	f32a ,	}
-	,	} ,
-    match Logon
-as
-float {  [ ""// no comment""  // packet A { u8 x, }
-      ] :	roots
-    0123456789
-:Pad	,
-    }
-, repeat 
-Foo 
-
-//
-	// c
-
-  {  matchKey
-    {zchar[
-
-4294967296 ]  repeatCount
-
-    `{ , }`
-,}	,uint64	int
-    @lengthOf(
-float
-
-    )
-
-    ,	match // packet A { u8 x, }
-		asx 
-as
-trueish{  ""// no comment""  //	t
-    : lengthOf
-, 
-10
-: As 	 // `tick` ""quote"" 'q'
-
-	,
-3
-    :calculatedFrom
-,
-[  7
-	,
-    4294967296 
-]
-
-: 
-leftPad
-
-    ,	4294967296 :BodyLength 
-,
-	} ,
-} 
-, i8 Packet,
-
-@calculatedFrom(
-""" ++ [128512]%N ++ runes_of_ascii """ )
-
-Logon o ,
-	repeat
-	u64
-asx
-    ,  @calculatedFrom(
-
-""a\""b"" )
-
-repeat
-int8
-
-MetaDataX , @calculatedFrom(
-    ""abc"" 
-) 
-uint64 	 // trailing space 
-  tag  `line1
-line2`
-, }
-")).
-Eval vm_compute in ("<<<M4494>>>" ++ check (runes_of_ascii "
-packet  a1
-	{  chars
-{ len  { Logon len 
-,  string
-string_ , u8x
-    @calculatedFrom(	""a\\""
-        // a // b
-		// c
-)
-,	repeat 
-float	{
-    body int
-    `" ++ [233]%N ++ runes_of_ascii "`  ,
-},
-
-} 
-,
-
-    repeat  As
-{repeat i64_ f32a
-`{ , }`  ,
-
-A
-@calculatedFrom( ""\" ++ [233]%N ++ runes_of_ascii """
-    ) , int64 float 
-    //	t
-	, }, match x	as
-
-    chars	{[
-	""" ++ [128512]%N ++ runes_of_ascii """ ,007  ,""x y"" ,00  ,
-
-    ""x y""
-	, 10 ] :
-
-string_  10
-	: float	,
-4294967296 : x_y_z ,
-[""" ++ [233]%N ++ runes_of_ascii "t" ++ [233]%N ++ runes_of_ascii """ 	 //	t
-	, 10
-	,	42
-    , """ ++ [28040; 24687]%N ++ runes_of_ascii """
-,
-
-0123456789
-	,42
-	,
-
-10 ]
-:
-T 00	: leftPad // trailing space 
-    , }
-    , crc
-@lengthOf(
-    u128 
-
-    // " ++ [128512]%N ++ runes_of_ascii " emoji
-    // trailing space 
-    	) 	 //x
-
-, }  ,char[]
-
-packetx
-
-    @calculatedFrom( ""abc"")
-    `line1
-line2`,int32
-    repeatCount  @lengthOf( Foo)
-	`it's` 	 //	t
-
-,match  Packet	/// triple
-	as
-    string_
-    {42
-
-/// triple
-
-// trailing space 
-:
-    f32a ,255:MetaDataX 1
-    :
-	i8i8 """"
-:
-a1 ,	//	t
-
-	}
-	,	_x
-
-    @lengthOf( chars
-
-), 
-}
-")).
-Eval vm_compute in ("<<<M1042>>>" ++ check (runes_of_ascii "  MetaData
-//
-// a // b
-float {stringy // packet A { u8 x, }
-leftPad //
-, }
-root packet a1 /// triple
-{ @lengthOf(	matchKey ) char[] int `
-`
-    ,char[
-42] body `a\` , @leftPad ('0'
-    ) T { zchar[
-1 ] /// triple
-u128
-@lengthOf( repeatCount
-) `
-` , // trailing space 
-} , @lengthOf(
-msg_type
-// `tick` ""quote"" 'q'
-// @lengthOf(
-)
-    repeat uint16 rootA , @rightPad( ) repeat metadata i64_ `two words` , match leftPad as _x
-{
-// @lengthOf(
-/// triple
-00
-    :charz
-    , 7	:  float,// @lengthOf(
-""CRC32"" :	float 0123456789  :	rootA } ,  rootA , zchar[	42
-// " ++ [128512]%N ++ runes_of_ascii " emoji
-// packet A { u8 x, }
-]
-    pack , @lengthOf( trueish)
-    i64 Foo , //x
-body
-    `" ++ [28040; 24687; 31867; 22411]%N ++ runes_of_ascii "` , }packet T //
-{repeat Packet ,
-// trailing space 
-// `tick` ""quote"" 'q'
-char[]// @lengthOf(
-x
-`crlf
-line`
-, charz @lengthOf(
-    pack //
-) ,
-char[
-    // c
-    0 ] As,
-    @calculatedFrom( """ ++ [28040; 24687]%N ++ runes_of_ascii """
-    )MetaDataX ,}")).
-Eval vm_compute in ("<<<M1023>>>" ++ check (runes_of_ascii "packet
-matchKey {
-} MetaData
-    string_{ //	t
-pack repeatCount
-`{ , }` ,
-char[ 7 ] x , i32
-crc
-, Logon chars , uint32 o , Packet charz
-    ,
-}MetaData calculatedFrom {	int64 uint8x ,i16
-    o `// not a comment`, //x
-float float
-    , } packet stringy { }packet  len { repeat pack `{ , }` , @rightPad (' '
-) match i64_ as/// triple
-i64_ // @lengthOf(
-{
-""1"":
-As [4294967296 ] ://
-Logon , // `tick` ""quote"" 'q'
-0123456789 :options1 , 4294967296
-: roots}/// triple
-, char[ 3 ] rootA
-    @lengthOf( int )
-,
-    @leftPad
-(' ')
-// a // b
-/// triple
-@calculatedFrom(
-""abc"" )@leftPad (
-) zchar[
-    255 ]
-    _x@calculatedFrom(""{,}"" )
-, chars charz `a\` , @lengthOf(  roots )
-// a // b
-// a // b
-match u8x as
-    Z9_
 // " ++ [27880; 37322]%N ++ runes_of_ascii "
-/// triple
+")).
+Eval vm_compute in ("<<<M3531>>>" ++ check (runes_of_ascii "options
 {
-    // packet A { u8 x, }
-    65535  : a1 , 65535 :x_y_z ""a	b"" :MetaDataX , } , tag
-,} 	 ")).
-Eval vm_compute in ("<<<M465>>>" ++ check (runes_of_ascii "root
-packet rootA { repeat
-//x
-// c
-uint32 charz , }
-packet Packet{
-falsey
-    charz
-    `say ""hi""`,
-    // packet A { u8 x, }
-    @tag( 7) BodyLength@calculatedFrom(""a\""b"" )
-`line1
-line2`, } root
-    packet u //x
-{
-zchar[ 0 ]msg_type @calculatedFrom(""CRC32"") `tab	here` ,}packet	tag {
-@lengthOf(	A)match x //	t
-as roots  {
-// `tick` ""quote"" 'q'
-// c
-"""" : tag
-, 00 //x
-: packetx, 007  :
-    body """ ++ [28040; 24687]%N ++ runes_of_ascii """
-: trueish , 0
-:  lengthOf
-,
-} , crc ,
-string Packet , Pad@calculatedFrom(""a\""b"" )
-, repeat Pad
+
+    LittleEndian
+	= false
+;  StringPrefixLenType =
+
+    u16
+;
+ArrayPrefixLenType =	u64
+	;  FixedStringPadFromLeft =
+true
+	;	FixedStringPadChar =  ' ' ; }packet
+
+Logon{
+
+    u16
+    Tail 
+,	repeat string
+
+    x, i16 count ,
+@leftPad (
+    '0' ) char[
+3	]
+Note  ,
+
+} 
+packet 
+Fill {} packet Heartbeat 
+{ }
+    packet
+Reject  {string	msgKind
+	,
+	repeat Logon
+	, InFlags25	{  repeat  InPrice29
     {
-match a1 as trueish
-    { 00 :
-trueish 7:	calculatedFrom , // c
-[	""""
-]	: BodyLength
-,[7] :BodyLength , 3 :
-i64_
-0 :Pad
-, }	,}
-// " ++ [27880; 37322]%N ++ runes_of_ascii "
-// a // b
-, //	t
-string T
-`line1
-line2` , @rightPad
-    ( ' '
-) rootA {	string
-    x `doc`,char[
-    0 ]Packet @calculatedFrom(""abc"" ),
-    }
-    ,
-}")).
-Eval vm_compute in ("<<<M479>>>" ++ check (runes_of_ascii "packet // " ++ [128512]%N ++ runes_of_ascii " emoji
-BodyLength { zchar[
-10 ] x
-    @calculatedFrom( """" ) ,  @lengthOf(
-    string_
-    )metadata
-, @lengthOf(	trueish
-) repeat
-chars { zchar[ 00 ]T @calculatedFrom(
-    ""a	b"" ) `crlf
-line` ,
-char[// @lengthOf(
-0
+
+    u8
+price
+	,
+	Logon	,
+repeat char[ 1  ]
+Note
+
+,
+    }	,
+
+char[]	x,
+
+Fill
+
+, }  ,
+	repeat
+
+    Heartbeat
+
+,}root packet
+
+    Order
+	{  InNote88 {
+repeat
+	i32
+	Acct	,
+	repeat
+	i16 clOrdID ,
+
+    repeat
+
+    Logon,} ,
+u16
+tag7 
+,
+match	tag7  as 
+Body
+
+{ 
+[
+    14
+
+, 22
+    ]
+
+:
+    Logon
+	,
+55
+
+: Heartbeat, 93
+: Reject
+
+,13:Fill ,
+} , 
+}
+")).
+Eval vm_compute in ("<<<M3523>>>" ++ check (runes_of_ascii "
+options
+    {
+
+LittleEndian
+
+    = false  ;
+StringPrefixLenType =
+
+u16; ArrayPrefixLenType=u32
+
+    ; 
+} packet Order { uint8 x
+	,
+
+repeat  string
+venue
+,  }packet Heartbeat
+    {
+i64  count  ,  zchar[	1]
+Qty
+
+,
+repeat
+
+InX29
+
+{	InSeqno26 { int64  f1 ,
+
+    char[ 5
 ]
-chars	, }
-    , uint8
+    Acct 
+,Order
+    ,
+
+},
+repeat  InSide285	{ repeat
+
+    Order
+,	char[10  ]
+Px ,
+
+    zchar[ 
+9
+
+    ]
+
+    OrderId,
+	},
+char[] venue
+	, Order, } , @rightPad ('\x00'
+)
+
+    char[ 4
+]
+
+    clOrdID
+
+    ,
+	}  root
+
+packet
+    Party 
+{ zchar[3]	f1 
+,
+
+u32
+
+    clOrdID
+
+    , u32 Px	@lengthOf(
+
+    Body
+    ),
+
+match
+	clOrdID
+    as	Body {
+	[180, 64
+
+]  :Heartbeat
+    ,11
+
+    : Order
+	,
+},u32
+Side2
+
+@calculatedFrom(
+
+""CRC32"")
+,	}
+")).
+Eval vm_compute in ("<<<M3989>>>" ++ check (runes_of_ascii "  packet 
+Foo
+
+    {@calculatedFrom( 
+""it's""
+    )	/// triple
+@calculatedFrom(""// no comment""	)pack
+@calculatedFrom(
+""// no comment""
+
+    )	`tab	here`
+, 
+}  root packet 
+options1
+	{  @tag(42 )// a // b
+    	repeat
+
+char[
+
+42 // a // b
+  ]  Packet
+    `// not a comment` 
+,Logon	{len ,	crc {zchar[65535 
+]  msg_type@calculatedFrom(
+    ""`tick`"" )
+    ,	},} ,
+
+}  packet
+    matchKey  {
+	@lengthOf(
+
+    int
+
+)  @calculatedFrom( ""// no comment""
+    )
+
+    @tag(7 
+        // `tick` ""quote"" 'q'
+    // @lengthOf(
+    ) x_y_z,
+i16
+x_y_z `say ""hi""`  ,
+@calculatedFrom(""" ++ [233]%N ++ runes_of_ascii "t" ++ [233]%N ++ runes_of_ascii """ )
+    @calculatedFrom( //x
+""""
+)
     // a // b
-    rootA
-@lengthOf( int) , @lengthOf( packetx
-) char[	007 ]
-uint8x @calculatedFrom( ""\" ++ [233]%N ++ runes_of_ascii """
-) ,
-    u
-{ char[] Pad @calculatedFrom(
-""\n"" ) , }, char[
-    10 ]
-pack
-@lengthOf(
-_x //	t
-)`two words`
-, char[]
-    Logon	@lengthOf(body
-    ) , @lengthOf(matchKey )
-    chars { uint16  pack ,  char[ 4294967296]
-// trailing space 
-/// triple
-options1@calculatedFrom( ""CRC32"") // packet A { u8 x, }
-, u32 i64_
-`say ""hi""`, lengthOf `// not a comment`  ,
-    } , options1 @lengthOf( x
-) , }
-")).
-Eval vm_compute in ("<<<M3527>>>" ++ check (runes_of_ascii "options {
-    StringPrefixLenType = u16;
-    ArrayPrefixLenType = u32;
-    FixedStringPadFromLeft = false;
-    FixedStringPadChar = '0';
-}
-packet Logout {
-    f64 f1,
-    i16 Note,
-    @rightPad('\x00') char[11] Flags,
-}
-packet Cancel {
-    float64 msgKind,
-}
-packet Reject {
-    InQty43 {
-        float32 sym,
-        char[10] Tail,
-        uint8 venue,
-        uint16 f1,
-        char[9] Acct,
-    },
-}
-packet Trade {
-    char[] x,
-    zchar[6] Note,
-    repeat Reject,
-}
-root packet Order {
-    Cancel,
-    Logout,
-    u64 Acct,
-    u32 OrderId,
-    match OrderId as Body {
-        [127, 70] : Reject,
-        177 : Trade,
-        58 : Logout,
-        75 : Cancel,
-    },
-    u32 Tail @calculatedFrom(""CRC32""),
-}
-")).
-Eval vm_compute in ("<<<M3562>>>" ++ check (runes_of_ascii "// " ++ [27880; 37322]%N ++ runes_of_ascii "
+//x
+	@tag(
+4294967296 ) 
+  // @lengthOf(
+  	BodyLength  string_ 
+,  }")).
+Eval vm_compute in ("<<<M4104>>>" ++ check (runes_of_ascii "// " ++ [27880; 37322]%N ++ runes_of_ascii "
 packet leftPad {
     // a // b
     string As `{ , }`,
@@ -1281,8 +1268,8 @@ packet leftPad {
         7 : calculatedFrom,
         [65535, 7, ""a	b""] : int,
         [
-            00, 0, 65535, 007, ""x y"",
-            """ ++ [128512]%N ++ runes_of_ascii """, ""it's"", """"
+            00, 0, ""x y"", 65535, """ ++ [128512]%N ++ runes_of_ascii """,
+            007, ""it's"", """"
         ] : Packet,
         """" : float,
     },
@@ -1290,7 +1277,7 @@ packet leftPad {
     @calculatedFrom(""a	b"")
     pack {
         float32 charz `line1
-                line2`,
+        line2`,
     },
 }
 
@@ -1299,1289 +1286,1396 @@ MetaData u128 {
     BodyLength charz,
     u8x trueish `a\`,
     Header msg_type `line1
-        line2`,
-    string stringy,
+    line2`,
+    string stringy,// " ++ [128512]%N ++ runes_of_ascii " emoji
     char[] u128 `" ++ [233]%N ++ runes_of_ascii "`,
 }
 
 options {
 }")).
-Eval vm_compute in ("<<<M926>>>" ++ check (runes_of_ascii "
-packet T {
-@calculatedFrom(""\" ++ [233]%N ++ runes_of_ascii """ )
-    string// a // b
-f32a ,repeat f32
-    falsey , /// triple
-@leftPad	('0' )
-match // packet A { u8 x, }
-repeatCount as
-repeatCount
-    {
-    ""a	b"" : body
-    , } ,
-x_y_z @lengthOf(
-trueish) // `tick` ""quote"" 'q'
-,f64 crc , @calculatedFrom( //	t
-""x y"")@tag( 0 // " ++ [128512]%N ++ runes_of_ascii " emoji
-)
-@tag( 65535 )
-int16 u128 @lengthOf( string_// a // b
-)`" ++ [233]%N ++ runes_of_ascii "` , @calculatedFrom(
-    ""\n"" ) char[0123456789 ]Foo@calculatedFrom(
-""CRC32"" ) ,@calculatedFrom( ""a\\"" )
-match
-    T
-    as msg_type
-{
-    [ 65535,""x y""
+Eval vm_compute in ("<<<M452>>>" ++ check (runes_of_ascii "  packet BodyLength{
+}
+options {} packet uint8x { } packet chars {
+@tag( //x
+007)
+pack { stringy
+`doc` , match
+    f32a as  calculatedFrom{
+[""a	b""
+, 00 // c
 ,
-3, 255
-,
-    0	] :
-T,[// trailing space 
-""CRC32"" , ""1""
-    //	t
-    , 3 , 10 , 65535 ]: u //	t
-, 4294967296:	a1 ,
-},}")).
-Eval vm_compute in ("<<<M3804>>>" ++ check (runes_of_ascii "options {
-    LittleEndian = true;
-    FixedStringPadFromLeft = true;
-    FixedStringPadChar = '0';
-}
-
-packet Trade {
-    string clOrdID,
-    char[] Px,
-    u32 x,
-}
-
-packet Reject {
-    int32 Side2,
-    repeat char[3] clOrdID,
-    i32 tag7,
-}
-
-packet Leg {
-}
-
-root packet Quote {
-    string Side2,
-    string lastPx,
-    InSym58 {
-        int16 OrderId,
-        Reject,
-        i8 Qty,
-        i64 venue,
-        f32 Note,
-    },
-    char[] count,
-    zchar[9] price,
-    u16 Qty,
-    match Qty as Body {
-        69 : Leg,
-        48 : Trade,
-        51 : Reject,
-    },
-    u16 Acct @calculatedFrom(""CRC32""),
-}")).
-Eval vm_compute in ("<<<M3749>>>" ++ check (runes_of_ascii "packet Z9_ {
-    a1,
-}
-
-root packet crc {
-    /// triple
-    // trailing space 
-    u32 o @calculatedFrom(""it's""),
-    float32 lengthOf,
-    zchar[4294967296] repeatCount @lengthOf(MetaDataX) `{ , }`,//
-    @rightPad('0')
-    body {
-        string Packet `tab	here`,
-    },
-    repeat i8i8 {
-        match BodyLength as Foo {
-            7 : f32a,
-            42 : A,
-            ""packet"" : uint8x,
-            [""a\\""] : u8x,
-            ""it's"" : As,
-        },
-        repeat zchar[65535] crc,
-        char[] chars `a\`,
-    },
-    char[4294967296] repeatCount `two words`,
-}")).
-Eval vm_compute in ("<<<M1143>>>" ++ check (runes_of_ascii "// " ++ [128512]%N ++ runes_of_ascii " emoji
-packet _x	{
-    }  packet Logon{  repeat
-int64 uint8x ,
-    roots
-{zchar[65535 ]
-float // @lengthOf(
-,i64 MetaDataX
-    , int32 charz , uint32 _x `" ++ [28040; 24687; 31867; 22411]%N ++ runes_of_ascii "` , } ,//x
-string tag
-    @calculatedFrom( ""\" ++ [233]%N ++ runes_of_ascii """ )  ,	repeat char BodyLength , }	packet	zchar
-{
-@calculatedFrom( ""x y"" ) @tag(1	)
-zchar[
-    1	] u ,pack {zchar[ 3 ] packetx @lengthOf(Foo )  ,} , match
-roots as A  {
-    42
-:f32a ,}
-,
-    @lengthOf(leftPad // packet A { u8 x, }
-)
-@leftPad ( // @lengthOf(
-'0' )@calculatedFrom( """"
-    // packet A { u8 x, }
-    ) metadata , }")).
-Eval vm_compute in ("<<<M1273>>>" ++ check (runes_of_ascii "MetaData
-lengthOf
-{
-// " ++ [27880; 37322]%N ++ runes_of_ascii "
-// a // b
-zchar[ 4294967296 ]
-Pad,	As // " ++ [128512]%N ++ runes_of_ascii " emoji
-trueish`" ++ [28040; 24687; 31867; 22411]%N ++ runes_of_ascii "` , u32 calculatedFrom
-`it's` ,zchar[// " ++ [128512]%N ++ runes_of_ascii " emoji
-255
-    ]packetx ,	string
-asx , int16 string_ ``
-    ,
-    } packet	Header { @calculatedFrom(""" ++ [233]%N ++ runes_of_ascii "t" ++ [233]%N ++ runes_of_ascii """) uint8 //	t
-lengthOf
-,string
-    //	t
-    int @calculatedFrom(	""x y"") `" ++ [28040; 24687; 31867; 22411]%N ++ runes_of_ascii "` ,match
-stringy as tag { [
-10 ] :
-    trueish //x
-10// `tick` ""quote"" 'q'
-:  int
-    /// triple
-    ,
-    // @lengthOf(
-    ""abc"" : o
-}	, @tag(3 )
-    zchar[ // `tick` ""quote"" 'q'
-255 ] i64_ , }
-
-")).
-Eval vm_compute in ("<<<M4360>>>" ++ check (runes_of_ascii "packet crc {
-    @rightPad('0')
-    int @calculatedFrom(""\n""),
-    o,
-    Header `say ""hi""`,
-    @lengthOf(asx)
-    // c
-    repeat packetx {
-        match uint8x as o {
-            65535 : _x,
-            // trailing space 
-            42 : x,
-        },
-    },
-    repeat x_y_z,
-    char[00] crc @lengthOf(Z9_),
-    u8x {
-        uint32 float `" ++ [28040; 24687; 31867; 22411]%N ++ runes_of_ascii "`,
-        string_ `
-                `,
-        zchar[65535] u,
-        falsey @lengthOf(MetaDataX),
-    },
-    string A `two words`,
-}")).
-Eval vm_compute in ("<<<M4370>>>" ++ check (runes_of_ascii "packet charz {
-    @lengthOf(x_y_z)
-    match msg_type as msg_type {
-        ""a	b"" : packetx,
-    },
-    repeat zchar[255] i8i8 `tab	here`,
-    char[255] i8i8 @lengthOf(i64_),
-}
-
-root packet matchKey {
-    zchar[3] body `crlf
-    line`,
-    @calculatedFrom(""x y"")
-    char[00] leftPad `u8 x,`,
-}// packet A { u8 x, }
-
-packet u8x {
-    @tag(00)
-    metadata {
-        repeat lengthOf {
-            zchar[0] _x @calculatedFrom(""it's"") `say ""hi""`,
-        },
-    },
-}")).
-Eval vm_compute in ("<<<M3905>>>" ++ check (runes_of_ascii "options 
-{	Foo 
-    // " ++ [27880; 37322]%N ++ runes_of_ascii "
-	= ' '
-
-    ; 	 //
-calculatedFrom
-=
-'\x00'
-
-; Logon //x
-
-=
-
-    0//
-
-  x
-
-=	'\x00'
-    ;  // packet A { u8 x, }
-} packet
-	_x
-    {
-    @calculatedFrom(""" ++ [28040; 24687]%N ++ runes_of_ascii """ ) 
-repeat int32 
-Z9_,  Pad packetx ,	@lengthOf(	u128 )@tag( 1
-
-    ) match msg_type as  x 
-{ 
-    // @lengthOf(
-    	[ """ ++ [233]%N ++ runes_of_ascii "t" ++ [233]%N ++ runes_of_ascii """ 
-]
-
-:  x, 
-}// " ++ [27880; 37322]%N ++ runes_of_ascii "
-    ,
-@lengthOf( a1 
-	    // " ++ [128512]%N ++ runes_of_ascii " emoji
-    )	leftPad
+007 ,""a	b"" ]
+:
+u8x }  ,} , f32 options1@lengthOf(
+leftPad ) , @calculatedFrom(
+    ""packet""
+) leftPad
+, // `tick` ""quote"" 'q'
+char stringy//x
+, char[] A @calculatedFrom( // " ++ [27880; 37322]%N ++ runes_of_ascii "
+""abc""
+) ,  @tag(0	) char[
+    4294967296] int @calculatedFrom( /// triple
+""x y""	)
+, repeat
+x
+{ stringy @calculatedFrom(	""packet"" )
+`tab	here`
+    , i16 asx
+    `" ++ [233]%N ++ runes_of_ascii "` ,
+f32a ,tag
+    @calculatedFrom(  """" )`" ++ [233]%N ++ runes_of_ascii "` ,}, u32
     // a // b
-    	//x
-    	As
-    ,i8i8 _x ,
-
-} // " ++ [128512]%N ++ runes_of_ascii " emoji
- 
+    Header
+, repeat f32a u128 `{ , }` , }options { pack = false ; }
 ")).
-Eval vm_compute in ("<<<M4285>>>" ++ check (runes_of_ascii "packet MetaDataX {
-    @tag(3)
-    int16 Pad `line1
-        line2`,
-    @lengthOf(i8i8)
-    match u8x as Packet {
-        1 : u128,
-        ""`tick`"" : matchKey,
-    },
-    @lengthOf(packetx)
-    zchar[4294967296] Z9_ @calculatedFrom(""abc""),//	t
-    @tag(255)
-    int64 i64_ @lengthOf(Packet),
-    repeat uint8 u128,
-    As metadata,
-    @lengthOf(asx)
-    @lengthOf(A)
-    @calculatedFrom(""CRC32"")
-    //
-    u8 options1 `say ""hi""`,
-}")).
-Eval vm_compute in ("<<<M414>>>" ++ check (runes_of_ascii "// @lengthOf(
-options
-{
-a1
-    // a // b
-    =false ;
-}root packet options1	{ i64_ @lengthOf( // trailing space 
-matchKey) ,  u64
-Logon `say ""hi""`  ,
-@lengthOf( a1 // packet A { u8 x, }
-)	@calculatedFrom(
-""\" ++ [233]%N ++ runes_of_ascii """ ) // `tick` ""quote"" 'q'
-repeat float32 _x // packet A { u8 x, }
-,@calculatedFrom(	""// no comment"" ) @tag( 7	)
-@calculatedFrom( ""abc"") int16
-    options1 @calculatedFrom( ""CRC32"" ) ,// `tick` ""quote"" 'q'
-}")).
-Eval vm_compute in ("<<<M756>>>" ++ check (runes_of_ascii "//x
-options
-{  } packet As{ @leftPad() Packet  `a\`
-,// c
-}	packet i64_	{
-i16 charz
-    `tab	here`, @calculatedFrom(
-""" ++ [233]%N ++ runes_of_ascii "t" ++ [233]%N ++ runes_of_ascii """ ) @lengthOf(
-Packet )
-char[ 4294967296 ] msg_type	@lengthOf(
-leftPad ) ,  } MetaData o { x falsey ,// packet A { u8 x, }
-i16 u8x	`crlf
-line`, zchar[4294967296 ] // @lengthOf(
-u8x `" ++ [28040; 24687; 31867; 22411]%N ++ runes_of_ascii "` , char[
-3 ]Header	, x
-//
-// @lengthOf(
-string_
-    // " ++ [27880; 37322]%N ++ runes_of_ascii "
-    ,
-// c
-//	t
-} // @lengthOf(")).
-Eval vm_compute in ("<<<M1224>>>" ++ check (runes_of_ascii "root packet stringy{ repeat stringy
-`
-` , @rightPad
+Eval vm_compute in ("<<<M1000>>>" ++ check (runes_of_ascii "MetaData rootA
+{u64
+trueish	, metadata calculatedFrom// @lengthOf(
+,
+// " ++ [128512]%N ++ runes_of_ascii " emoji
+// `tick` ""quote"" 'q'
+u8
+u128 ,
+    chars  pack ,
+    zchar lengthOf `line1
+line2` ,
+}root packet //	t
+len{ @lengthOf( trueish)
+i8 Z9_
+`" ++ [28040; 24687; 31867; 22411]%N ++ runes_of_ascii "` , @leftPad
 (
-    '\x00')	repeat A `tab	here`
-    ,@tag( 0)
-@rightPad
-( ) repeat As
-u128 `tab	here`	,@calculatedFrom( ""CRC32"" ) string_	{ repeat i8 o  ,
-zchar[ 42	]	stringy `doc`
-,  char[]
-int
-    ,match trueish as zchar  { [
-//
-//	t
-""" ++ [233]%N ++ runes_of_ascii "t" ++ [233]%N ++ runes_of_ascii """,
-    3] :
-asx,}	, } ,
-    }
-    options { roots =	65535  ;
-    } MetaData float {  Foo f32a ,}
-")).
-Eval vm_compute in ("<<<M544>>>" ++ check (runes_of_ascii "
-MetaData msg_type {string u128`` , string uint8x,} options{
-//	t
-// " ++ [27880; 37322]%N ++ runes_of_ascii "
-uint8x =
-    // c
-    ""packet"";
-// `tick` ""quote"" 'q'
-// a // b
-}MetaData trueish //	t
-{MetaDataX int
-,
-    int msg_type `{ , }` ,Foo lengthOf ,float32 calculatedFrom
-    ,
-int64 packetx,// " ++ [27880; 37322]%N ++ runes_of_ascii "
-uint32 Z9_ , }  MetaData string_
-    {
-uint32 string_ , }
-    packet BodyLength
-{	char[ 10] o
-, }")).
-Eval vm_compute in ("<<<M3850>>>" ++ check (runes_of_ascii "//x
-options {
-}
-
-packet As {
-    @leftPad()
-    Packet `a\`,// c
-}
-
-packet i64_ {
-    i16 charz `tab	here`,
-    @calculatedFrom(""" ++ [233]%N ++ runes_of_ascii "t" ++ [233]%N ++ runes_of_ascii """)
-    @lengthOf(Packet)
-    char[4294967296] msg_type @lengthOf(leftPad),
-}
-
-MetaData o {
-    x falsey,
-    i16 u8x `crlf
-    line`,
-    zchar[4294967296] u8x `" ++ [28040; 24687; 31867; 22411]%N ++ runes_of_ascii "`,
-    char[3] Header,
-    x string_,
-}// @lengthOf(")).
-Eval vm_compute in ("<<<M4154>>>" ++ check (runes_of_ascii "root
-    packet Foo // " ++ [128512]%N ++ runes_of_ascii " emoji
-    	{} 
-options
-    {
-    // a //# b
-	tag  // `tick` ""quote"" 'q'
-    = //	t
-  """" 
-;
-    u8x  =
-
-zchar[ 0	]}MetaData
-    int
-
-{
-	zchar[ 
-10
-    ]
-
-lengthOf `` ,
-i64 u8x `// not a comment` 
-, 
-MetaDataX
-
-    pack// `tick` ""quote"" 'q'
-    `crlf
-line` ,
-Logon
-charz 
-`crlf
-line`
-,
-	    // a // b
-
-}
-
-")).
-Eval vm_compute in ("<<<M4264>>>" ++ check (runes_of_ascii "options {
-    calculatedFrom = '0';
-}
-
-root packet metadata {
-    i64 float @calculatedFrom(""1""),
-    @rightPad()
-    Logon u `crlf
-    line`,// trailing space 
-    falsey Packet `line1
-    line2`,
-    u32 a1 `tab	here`,
-}// " ++ [128512]%N ++ runes_of_ascii " emoji
-
-options {
-    lengthOf = '\x00'
-    msg_type = uint8;
-    repeatCount = 0123456789;
-}//x")).
-Eval vm_compute in ("<<<M3507>>>" ++ check (runes_of_ascii "
-options{
-
-LittleEndian =
-true
-;
-
-    ArrayPrefixLenType
-	=u64
-;
-
-FixedStringPadFromLeft  =
-    false ;
-	}	packet Quote
-{  }	root
-packet
-Order
-
-    {  i64 Side2  , Quote,
-u32
-
-Px
-, 
-match
-
-    Px
-    as Body
-
-    {
-    [
-	119 , 147 ] : 
-Quote ,
-
-}, u16
-
-Flags	@calculatedFrom(
-""CRC32""
 )
+    match
+zchar // " ++ [27880; 37322]%N ++ runes_of_ascii "
+as trueish {00:As,""" ++ [128512]%N ++ runes_of_ascii """
+    : o
     ,
-	}")).
-Eval vm_compute in ("<<<M1525>>>" ++ check (runes_of_ascii "root packet Foo // " ++ [128512]%N ++ runes_of_ascii " emoji
-{ } options {
-    // a // b
-    tag // `tick` ""quote"" 'q'
-= //	t
-""""
-    ; u8x = zchar[0  ] }
-MetaData
-    int {zchar[ 10]
-lengthOf lengthOf	`` , i64 u8x`// not a comment` ,MetaDataX pack// `tick` ""quote"" 'q'
-`crlf
-line`
-, Logon charz `crlf
-line`
-    ,
-    // a // b
-    }
-")).
-Eval vm_compute in ("<<<M3944>>>" ++ check (runes_of_ascii "options {
-    body = 0123456789
-}
-
-packet tag {
-    o @lengthOf(packetx) `" ++ [28040; 24687; 31867; 22411]%N ++ runes_of_ascii "`,
-    repeat options1 {
-        float64 o `doc`,
-    },
-}
-
-root packet float {
-    @calculatedFrom(""a	b"")
-    //	t
-    float32 BodyLength `crlf
-    line`,
-    repeat f32a Header `say ""hi""`,
-    int8 falsey `{ , }`,
-}")).
-Eval vm_compute in ("<<<M1555>>>" ++ check (runes_of_ascii "root packet Foo // " ++ [128512]%N ++ runes_of_ascii " emoji
-{ } options {
-    // a // b
-    tag // `tick` ""quote"" 'q'
-= //	t
-""""
-    ; u8x = zchar[0  ] }
-MetaData
-    int {zchar[ 10]
-lengthOf	`` , i64 u8x`// not a comment` , ,MetaDataX pack// `tick` ""quote"" 'q'
-`crlf
-line`
-, Logon charz `crlf
-line`
-    ,
-    // a // b
-    }
-")).
-Eval vm_compute in ("<<<M1441>>>" ++ check (runes_of_ascii "root packet Foo // " ++ [128512]%N ++ runes_of_ascii " emoji
-{ } options tag
-    // a // b
-    { // `tick` ""quote"" 'q'
-= //	t
-""""
-    ; u8x = zchar[0  ] }
-MetaData
-    int {zchar[ 10]
-lengthOf	`` , i64 u8x`// not a comment` ,MetaDataX pack// `tick` ""quote"" 'q'
-`crlf
-line`
-, Logon charz `crlf
-line`
-    ,
-    // a // b
-    }
-")).
-Eval vm_compute in ("<<<M1601>>>" ++ check (runes_of_ascii "root packet Foo // " ++ [128512]%N ++ runes_of_ascii " emoji
-{ } options {
-    // a // b
-    tag // `tick` ""quote"" 'q'
-= //	t
-""""
-    ; u8x = zchar[0  ] }
-MetaData
-    int {zchar[ 10]
-lengthOf	`` , i64 u8x`// not a comment` ,MetaDataX pack// `tick` ""quote"" 'q'
-`crlf
-line`
-, Logon charz `crlf
-line`
-    ,
-    // a // b
-    =
-")).
-Eval vm_compute in ("<<<M1413>>>" ++ check (runes_of_ascii "; packet Foo // " ++ [128512]%N ++ runes_of_ascii " emoji
-{ } options {
-    // a // b
-    tag // `tick` ""quote"" 'q'
-= //	t
-""""
-    ; u8x = zchar[0  ] }
-MetaData
-    int {zchar[ 10]
-lengthOf	`` , i64 u8x`// not a comment` ,MetaDataX pack// `tick` ""quote"" 'q'
-`crlf
-line`
-, Logon charz `crlf
-line`
-    ,
-    // a // b
-    }
-")).
-Eval vm_compute in ("<<<M1279>>>" ++ check (runes_of_ascii "root packet packetx
-{ char[ 65535] u
-    , @lengthOf( MetaDataX
-) @lengthOf( rootA ) @lengthOf( u8x
-)  zchar[ 3 ]zchar`
-` ,
-// packet A { u8 x, }
-//	t
-lengthOf len	, repeat A	{
-    // c
-    lengthOf @calculatedFrom( ""x y"" ) ,	zchar[
-// a // b
+[ 42 ] : a1
+// `tick` ""quote"" 'q'
+// `tick` ""quote"" 'q'
+,
+10// trailing space 
+: len } , repeat As , @leftPad (	'0' )
+int32 calculatedFrom ,
+repeat Header  ,
+    @rightPad
+//
 // " ++ [27880; 37322]%N ++ runes_of_ascii "
-007]zchar @lengthOf( float	) ,} ,}
-")).
-Eval vm_compute in ("<<<M4390>>>" ++ check (runes_of_ascii "
-root	packet
-rootA
-    { @leftPad  ('\x00' 	 // `tick` ""quote"" 'q'
-  ) 
-@lengthOf(
-
-    crc)
-
-    @lengthOf(
-
-    string_
-    ) uint16
-Z9_
-    `
-`
-,
-    @lengthOf( 
-Z9_	)char[4294967296 
-] 
-zchar
-
-`say ""hi""` ,
-u ,
-	match
-    int
-
-as stringy{
-	3:
-    body ,
+(' ') // packet A { u8 x, }
+calculatedFrom	repeatCount,
+    msg_type @lengthOf( // c
+T ) ,
     }
-,}")).
-Eval vm_compute in ("<<<M1108>>>" ++ check (runes_of_ascii "MetaData lengthOf
-    {
-float rootA `
-`
-,  i16 // " ++ [128512]%N ++ runes_of_ascii " emoji
-x	,
-float32 msg_type, lengthOf
-// a // b
-// " ++ [27880; 37322]%N ++ runes_of_ascii "
-u8x `" ++ [28040; 24687; 31867; 22411]%N ++ runes_of_ascii "` ,}
-    options {  packetx= 3 ;options1=  zchar[255 ]
-;  Pad =false
-    ; repeatCount =	42 // @lengthOf(
-;
-    chars
-/// triple
-// a // b
-= ' '; }")).
-Eval vm_compute in ("<<<M3422>>>" ++ check (runes_of_ascii "// top
-options // c0a
-  // c0b
-{ // c1a
-  // c1b
-LittleEndian
-    // c2
-= true // c4a
-  // c4b
-; // c5a
-  // c5b
-} // c6
-root // c7
-packet
-    // c8
-P // c9a
-  // c9b
-{
-    // c10
-repeat char cs // c13
-, // c14a
-  // c14b
-u8 // c15
-x // c16
-, // c17
-} ")).
-Eval vm_compute in ("<<<M481>>>" ++ check (runes_of_ascii "MetaData	a1
-    { rootA
-i8i8 `crlf
-line`
-, } options { msg_type
-= 65535 Header  =false lengthOf = char[]	} packet stringy
-    { repeat chars chars `u8 x,` , }
-packet u128 // a // b
-{ repeat x
-    {  u16 As@calculatedFrom( ""`tick`""
-),} ,
-}
-")).
-Eval vm_compute in ("<<<M359>>>" ++ check (runes_of_ascii "
-MetaData falsey
-{uint64
-matchKey
-`// not a comment` ,	char Pad
-    ,
-    int16 Pad
-// packet A { u8 x, }
-// @lengthOf(
-`" ++ [28040; 24687; 31867; 22411]%N ++ runes_of_ascii "`// @lengthOf(
-,
-    zchar[ 00 ]x_y_z, char[] // packet A { u8 x, }
-i64_ , Logon repeatCount `tab	here` ,}")).
-Eval vm_compute in ("<<<M2316>>>" ++ check (runes_of_ascii "MetaData Packet { }packet	asx  { @lengthOf( asx) falsey`crlf
-line`
-,
-    }
-    packet x	{uint32// @lengthOf(
-rootA	,u32 options1 options1 `say ""hi""` , @tag( 7
-    )// packet A { u8 x, }
-msg_type @lengthOf(
-stringy	)	, }
-
-")).
-Eval vm_compute in ("<<<M2273>>>" ++ check (runes_of_ascii "MetaData Packet { }packet	asx  { @lengthOf( asx) falsey`crlf
-line`
-'\x00'
-    }
-    packet x	{uint32// @lengthOf(
-rootA	,u32 options1 `say ""hi""` , @tag( 7
-    )// packet A { u8 x, }
-msg_type @lengthOf(
-stringy	)	, }
-
-")).
-Eval vm_compute in ("<<<M2313>>>" ++ check (runes_of_ascii "MetaData Packet { }packet	asx  { @lengthOf( asx) falsey`crlf
-line`
-,
-    }
-    packet x	{uint32// @lengthOf(
-rootA	,@tag( options1 `say ""hi""` , @tag( 7
-    )// packet A { u8 x, }
-msg_type @lengthOf(
-stringy	)	, }
-
-")).
-Eval vm_compute in ("<<<M2227>>>" ++ check (runes_of_ascii "MetaData Packet { packet}	asx  { @lengthOf( asx) falsey`crlf
-line`
-,
-    }
-    packet x	{uint32// @lengthOf(
-rootA	,u32 options1 `say ""hi""` , @tag( 7
-    )// packet A { u8 x, }
-msg_type @lengthOf(
-stringy	)	, }
-
-")).
-Eval vm_compute in ("<<<M2220>>>" ++ check (runes_of_ascii "MetaData Packet  }packet	asx  { @lengthOf( asx) falsey`crlf
-line`
-,
-    }
-    packet x	{uint32// @lengthOf(
-rootA	,u32 options1 `say ""hi""` , @tag( 7
-    )// packet A { u8 x, }
-msg_type @lengthOf(
-stringy	)	, }
-
-")).
-Eval vm_compute in ("<<<M1333>>>" ++ check (runes_of_ascii "options { BodyLength
-=' ' zchar = true; calculatedFrom = float64
-    T =  ' ' ; // c
-}
-packet i64_ {
-    repeat zchar[
-    3
-] roots `say ""hi""`
-    ,zchar[ 65535 ] Z9_ @lengthOf( msg_type
-    ) `two words`, }
-")).
-Eval vm_compute in ("<<<M2212>>>" ++ check (runes_of_ascii " Packet { }packet	asx  { @lengthOf( asx) falsey`crlf
-line`
-,
-    }
-    packet x	{uint32// @lengthOf(
-rootA	,u32 options1 `say ""hi""` , @tag( 7
-    )// packet A { u8 x, }
-msg_type @lengthOf(
-stringy	)	, }
-
-")).
-Eval vm_compute in ("<<<M637>>>" ++ check (runes_of_ascii "root //
-packet A // packet A { u8 x, }
-{ @lengthOf( calculatedFrom )
-@tag( 65535 ) charz @lengthOf(charz
-    )  , } options {
-crc
-= 65535 }
-options
-    {leftPad // @lengthOf(
-=1
-    A =
-true
-;
-}
-")).
-Eval vm_compute in ("<<<M13>>>" ++ check (runes_of_ascii "packet crc {
-@tag(  0123456789// " ++ [128512]%N ++ runes_of_ascii " emoji
-) i64 uint8x , }
-MetaData i8i8 {
-    zchar[
-    65535 ] int, }	packet lengthOf  {
-// trailing space 
-//	t
-@leftPad	('0')	falsey int ,	}
-// @lengthOf(
-")).
-Eval vm_compute in ("<<<M928>>>" ++ check (runes_of_ascii "  packet
-zchar {	match roots
-as stringy{[ //	t
-""`tick`"" ]	: calculatedFrom 10 :asx , """ ++ [233]%N ++ runes_of_ascii "t" ++ [233]%N ++ runes_of_ascii """
-    :
-    // `tick` ""quote"" 'q'
-    BodyLength , """ ++ [128512]%N ++ runes_of_ascii """ :options1 , 3:
-    repeatCount
-    , }
-,}")).
-Eval vm_compute in ("<<<M3838>>>" ++ check (runes_of_ascii "packet len {
-}//	t
-
-root packet Pad {
-    char[] Header,
-    @lengthOf(falsey)
-    // " ++ [128512]%N ++ runes_of_ascii " emoji
-    char[] Header,
-    len `line1
-    line2`,
-}
-
-packet asx {
-    repeat int16 u,
-}")).
-Eval vm_compute in ("<<<M4024>>>" ++ check (runes_of_ascii "// @lengthOf(
-MetaData pack {
-    char[255] options1,
-    uint64 lengthOf,
-    int32 roots,
-}
-
-root packet Packet {
-    @calculatedFrom(""{,}"")
-    string zchar `" ++ [28040; 24687; 31867; 22411]%N ++ runes_of_ascii "`,
-}")).
-Eval vm_compute in ("<<<M386>>>" ++ check (runes_of_ascii "packet float
-{  zchar[ 65535
-]
-string_
-`doc` , @rightPad (
-    '\x00' )
-    @calculatedFrom(
-    """ ++ [128512]%N ++ runes_of_ascii """ ) i16
-    repeatCount , zchar[
-    65535
-]_x `crlf
-line`
-,}")).
-Eval vm_compute in ("<<<M584>>>" ++ check (runes_of_ascii "
-root packet leftPad {
-//	t
-// c
-char[] chars , }root
-    packet
-// a // b
-// `tick` ""quote"" 'q'
-stringy
-{// " ++ [27880; 37322]%N ++ runes_of_ascii "
-char[  42 ] A , } packet Foo{
-u128
-A ,
-}
-")).
-Eval vm_compute in ("<<<M1164>>>" ++ check (runes_of_ascii "packet metadata
-    {
-    @tag( 3 ) repeat	Logon ,}
-    MetaData crc {
-// `tick` ""quote"" 'q'
-// `tick` ""quote"" 'q'
-}
-    root packet
-x_y_z
+    packet calculatedFrom
     { }
 
 ")).
-Eval vm_compute in ("<<<M1105>>>" ++ check (runes_of_ascii "MetaData
-chars { char[]body, char[]leftPad// c
-`tab	here` ,
-    char Packet,f32a
+Eval vm_compute in ("<<<M1384>>>" ++ check (runes_of_ascii "MetaData u8x {  _x Foo `say ""hi""`
+, }MetaData x_y_z { char rootA ,
+    }
+    options {
+    f32a	= true} packet lengthOf {
+    zchar[
+    // `tick` ""quote"" 'q'
+    255 ]  trueish@calculatedFrom(	""" ++ [233]%N ++ runes_of_ascii "t" ++ [233]%N ++ runes_of_ascii """	) ,@lengthOf( len) zchar[
+007  ] // packet A { u8 x, }
+roots @lengthOf( o)
+// @lengthOf(
+// `tick` ""quote"" 'q'
+, char[
+7 ] o, Pad`
+`
+, char[ 42
+]
+f32a//
+@lengthOf( crc) , @lengthOf(
+// `tick` ""quote"" 'q'
+// @lengthOf(
+lengthOf//
+) @calculatedFrom(
+""CRC32"" )@leftPad	( '0' )
+//	t
+// " ++ [27880; 37322]%N ++ runes_of_ascii "
+repeat
+crc Foo
+, asx @lengthOf( trueish ) `a\`	,	@lengthOf( o ) string crc `it's` , }
+")).
+Eval vm_compute in ("<<<M4434>>>" ++ check (runes_of_ascii "options {
+    tag = ""it's"";
+    int = zchar[00];
+    x_y_z = ""a	b"";
+    packetx = ' ';
+}
+
+packet rootA {
+    uint8x @calculatedFrom(""CRC32""),// " ++ [27880; 37322]%N ++ runes_of_ascii "
+    u {
+        repeat string repeatCount `line1
+        line2`,
+        repeat Logon {
+            f32a @lengthOf(roots),
+            Packet {
+                int32 Z9_ `u8 x,`,
+            },
+            Packet Packet,
+        },
+        repeat repeatCount zchar,
+    },
+    a1 @calculatedFrom(""abc""),
+}// `tick` ""quote"" 'q'
+
+root packet crc {
+    @tag(00)
+    char[7] asx @lengthOf(T) ``,
+}")).
+Eval vm_compute in ("<<<M4101>>>" ++ check (runes_of_ascii "
+MetaData
+	// packet A { u8 x, }
+	// @lengthOf(
+    calculatedFrom
+
+{zchar[
+    3 ] u8x
+,
+	i32
+	o ,
+    zchar[42 
+
+    //x
+		// @lengthOf(
+	] leftPad
+    ,roots
+u 
+    //x
+	//
+	  , } 
+packet trueish
+
+{
+    @leftPad (  )
+
+    asx
+//	t
+
+@lengthOf(  i8i8
+	) ,
+	@rightPad
+
+    (
+'\x00' 
+)
+
+tag	@lengthOf(
+    Packet
+) 
+,
+
+    Pad 
+
+// `tick` ""quote"" 'q'
+	options1 `doc`
+,
+@lengthOf( Header
+	) 
+match
+    Z9_ 
+    // c
+  	/// triple
+    as	zchar {
+4294967296  :
+
+o
+	,
+    } ,} 	 /// triple
+ 
+")).
+Eval vm_compute in ("<<<M3643>>>" ++ check (runes_of_ascii "packet leftPad {
+    @calculatedFrom(""\" ++ [233]%N ++ runes_of_ascii """)
+    @rightPad('0')
+    @lengthOf(asx)
+    BodyLength trueish `it's`,
+    @leftPad('\x00')
+    A i8i8 `
+    `,
+    @tag(0)
+    matchKey {
+        int16 falsey `line1
+        line2`,/// triple
+    },// " ++ [128512]%N ++ runes_of_ascii " emoji
+    match tag as falsey {
+        [""packet""] : i64_,
+        3 : leftPad,
+    },
+    @calculatedFrom(""// no comment"")
+    string a1,
+    @leftPad('\x00')
+    @calculatedFrom(""" ++ [28040; 24687]%N ++ runes_of_ascii """)
+    @calculatedFrom(""`tick`"")
+    repeat chars As,
+}")).
+Eval vm_compute in ("<<<M3783>>>" ++ check (runes_of_ascii "  MetaData
+
+    stringy
+//x
+{
+
+    A
+
+MetaDataX
+    ,  } packet x { @calculatedFrom( 	 /// triple
+		""""
+
+)	char[]
+    body
+
+    `` 
+      /// triple
+
+// c
+,matchKey
+
+    @lengthOf(	uint8x	)
+    ,	} // packet A { u8 x, }
+    options 
+{
+	T
+// `tick` ""quote"" 'q'
+    	// trailing space 
+    	= true  ; 
+o// packet A { u8 x, }
+	  =
+    // c
+  	//	t
+'0' ;
+asx
+//
+= 
+4294967296
+x = ""CRC32""
+o	= zchar[
+7
+] }
+    options
+    { /// triple
+	As 
+=	false
+;  }	//x")).
+Eval vm_compute in ("<<<M1041>>>" ++ check (runes_of_ascii "root
+    packet charz // " ++ [27880; 37322]%N ++ runes_of_ascii "
+{options1 i64_ ,
+int {zchar[
+    0123456789 ] // " ++ [27880; 37322]%N ++ runes_of_ascii "
+_x , int , Pad `doc`
+    , // " ++ [128512]%N ++ runes_of_ascii " emoji
+repeat T //x
+{
+    repeat msg_type , char[]
+/// triple
+//	t
+lengthOf @lengthOf(	metadata) `tab	here` , char[] // " ++ [27880; 37322]%N ++ runes_of_ascii "
+_x
+    //x
+    , }	,
+},Logon crc
+// `tick` ""quote"" 'q'
+//
+,} MetaData chars {int16 repeatCount ,u64 float,x_y_z Logon
+    ``// @lengthOf(
+,
+char[ 1//	t
+]	Foo ,
+zchar[ 65535]int
+,x_y_z calculatedFrom , // a // b
+}")).
+Eval vm_compute in ("<<<M1024>>>" ++ check (runes_of_ascii "// @lengthOf(
+packet // trailing space 
+falsey{
+    a1 , //
+int8 chars
+//	t
+//	t
+``,	match Packet //x
+as Z9_ { 42 :	metadata ,	}
+    ,} MetaData pack{}root packet MetaDataX {
+    @lengthOf(
+    //
+    MetaDataX )
+    repeat As{
+    match As as MetaDataX
+{
+[	""CRC32""
+    //x
+    ]:  i64_ ,	[	42 // packet A { u8 x, }
+,// " ++ [27880; 37322]%N ++ runes_of_ascii "
+65535  , 3
+// `tick` ""quote"" 'q'
+//x
+]: // packet A { u8 x, }
+Packet, 0	:
+    Z9_ 10: i8i8 //
+, } , } , }")).
+Eval vm_compute in ("<<<M4321>>>" ++ check (runes_of_ascii "root packet body {
+    // `tick` ""quote"" 'q'
+    x_y_z @calculatedFrom(""\" ++ [233]%N ++ runes_of_ascii """) `" ++ [233]%N ++ runes_of_ascii "`,
+    @lengthOf(stringy)
+    asx `crlf
+        line`,
+    @calculatedFrom(""{,}"")
+    float {
+        repeat chars `doc`,
+    },
+}
+
+root packet trueish {
+    uint8x `tab	here`,
+    @calculatedFrom(""it's"")
+    u16 trueish `{ , }`,
+    @lengthOf(stringy)
+    i8i8 {
+        u16 MetaDataX ``,
+        string matchKey,
+        //	t
+    },
+}")).
+Eval vm_compute in ("<<<M4214>>>" ++ check (runes_of_ascii "  MetaData  o 	 // a // b
+  	{
+u32 string_ ,
+
+    char[]
+
+    a1 `crlf
+line`,
+    int8 
+options1
+
+,
+
+    }packet 
+Foo{ 
+@lengthOf(
+
+matchKey 
+) f32 f32a,
+
+@tag(
+
+0) 	 // @lengthOf(
+    	match
+	MetaDataX	as trueish
+
+{ //	t
+  	255  :
+T ,	4294967296
+    :
+
+pack
+    // a // b
+	, 3 
+: 
+falsey  ,
+""1""	: uint8x ,
+
+7 :
+u128
+4294967296
+
+    :  
+  // " ++ [27880; 37322]%N ++ runes_of_ascii "
+	  MetaDataX  , }
+	,
+
+i32//
+roots
+,	}
+")).
+Eval vm_compute in ("<<<M258>>>" ++ check (runes_of_ascii "MetaData stringy
+    //x
+    { A MetaDataX ,}
+    packet  x	{ @calculatedFrom( /// triple
+"""")
+char[] body``
+/// triple
+// c
+, matchKey @lengthOf( uint8x ) , } // packet A { u8 x, }
+options{	T
+// `tick` ""quote"" 'q'
+// trailing space 
+=true
+; o// packet A { u8 x, }
+=
+// c
+//	t
+'0'	; asx
+    //
+    = 4294967296
+x= ""CRC32""o =
+zchar[ 7 ] } options { /// triple
+As =false ; } //x")).
+Eval vm_compute in ("<<<M933>>>" ++ check (runes_of_ascii "packet chars { @lengthOf(As )// packet A { u8 x, }
+u128 Logon /// triple
+`line1
+line2`
+,
+//x
+// `tick` ""quote"" 'q'
+f32a
+, //x
+@rightPad  (
+    '\x00' )zchar[
+10] As
+    /// triple
+    `doc`, u8x
+    @lengthOf(
+// a // b
+//
+u128) ,
+    @lengthOf(	matchKey// @lengthOf(
+)@calculatedFrom(""CRC32""
+) @calculatedFrom( ""a\\"" ) repeat Z9_
+    // c
+    uint8x `u8 x,` , }")).
+Eval vm_compute in ("<<<M320>>>" ++ check (runes_of_ascii "packet Pad { int16 charz `` ,
+    @calculatedFrom(""a\""b"" // `tick` ""quote"" 'q'
+)
+    @tag(	1  )
+    zchar[ //	t
+4294967296
+    // packet A { u8 x, }
+    ] A, @rightPad () chars , // " ++ [27880; 37322]%N ++ runes_of_ascii "
+uint8x { zchar[
+0  ] // @lengthOf(
+zchar // " ++ [27880; 37322]%N ++ runes_of_ascii "
+`tab	here`
+, msg_type f32a ,u8 roots@calculatedFrom(""x y""  ) `crlf
+line`, /// triple
+As rootA
+// " ++ [27880; 37322]%N ++ runes_of_ascii "
+//
+, } , }
+")).
+Eval vm_compute in ("<<<M285>>>" ++ check (runes_of_ascii "
+MetaData o// a // b
+{ u32 string_, char[]a1
+`crlf
+line` , int8 options1 ,
+} packet
+    Foo{ @lengthOf( matchKey )f32 f32a ,
+@tag(0 ) // @lengthOf(
+match MetaDataX as trueish { //	t
+255 : T ,	4294967296 : pack
+    // a // b
+    ,	3 :falsey ,
+""1"" :uint8x ,7
+    : u128 4294967296 :
+    // " ++ [27880; 37322]%N ++ runes_of_ascii "
+    MetaDataX
+, } , i32 //
+roots
+, }")).
+Eval vm_compute in ("<<<M712>>>" ++ check (runes_of_ascii "
+packet Foo
+    { @lengthOf( metadata) // " ++ [128512]%N ++ runes_of_ascii " emoji
+repeat len {
+matchKey lengthOf
+,
+repeat body { int8 Header	, zchar @lengthOf( x) , }
+// " ++ [128512]%N ++ runes_of_ascii " emoji
+// @lengthOf(
+, }
+    //
+    ,
+    char[
+4294967296
+]
+    _x
+, } MetaData T{repeatCount
     trueish,
+    char[65535  ]  Pad `" ++ [233]%N ++ runes_of_ascii "` , }
+options {
+}
+options {
+u8x
+=
+    ""1"" ;}
+")).
+Eval vm_compute in ("<<<M3613>>>" ++ check (runes_of_ascii "  packet
+	_x
+	{	// packet A { u8 x, }
+    repeat
+u8
+
+// @lengthOf(
+	//	t
+
+  Logon
+,match
+Packet	as
+	repeatCount
+    {  65535
+
+    :
+
+leftPad,
+    [7
+	] :
+rootA 4294967296 
+:  Header,[
+	00	// trailing space 
+      ] :u8x	, 42 :
+MetaDataX ,
+007 :
+        // " ++ [27880; 37322]%N ++ runes_of_ascii "
+// " ++ [27880; 37322]%N ++ runes_of_ascii "
+
+uint8x,	// @lengthOf(
+		}
+	,  }
+")).
+Eval vm_compute in ("<<<M4106>>>" ++ check (runes_of_ascii "MetaData As {
+    zchar[255] repeatCount,
+    u32 lengthOf `u8 x,`,
+    o crc,
+    a1 u,
+    BodyLength matchKey,
+    char[00] options1 `
+    `,
+}
+
+packet u8x {
+    char[0] As @calculatedFrom(""packet""),
+    @calculatedFrom(""\" ++ [233]%N ++ runes_of_ascii """)
+    @lengthOf(int)
+    repeat trueish T,
+    float32 o `u8 x,`,
+}
+//	t")).
+Eval vm_compute in ("<<<M1567>>>" ++ check (runes_of_ascii "root packet Foo // " ++ [128512]%N ++ runes_of_ascii " emoji
+{ } options {
+    // a // b
+    tag // `tick` ""quote"" 'q'
+= //	t
+""""
+    ; u8x = zchar[0  ] }
+MetaData
+    int {zchar[ 10]
+lengthOf	`` , i64 u8x`// not a comment` ,MetaDataX options// `tick` ""quote"" 'q'
+`crlf
+line`
+, Logon charz `crlf
+line`
+    ,
+    // a // b
+    }
+")).
+Eval vm_compute in ("<<<M1447>>>" ++ check (runes_of_ascii "root packet Foo // " ++ [128512]%N ++ runes_of_ascii " emoji
+{ } options {
+    // a // b
+    true // `tick` ""quote"" 'q'
+= //	t
+""""
+    ; u8x = zchar[0  ] }
+MetaData
+    int {zchar[ 10]
+lengthOf	`` , i64 u8x`// not a comment` ,MetaDataX pack// `tick` ""quote"" 'q'
+`crlf
+line`
+, Logon charz `crlf
+line`
+    ,
+    // a // b
+    }
+")).
+Eval vm_compute in ("<<<M1496>>>" ++ check (runes_of_ascii "root packet Foo // " ++ [128512]%N ++ runes_of_ascii " emoji
+{ } options {
+    // a // b
+    tag // `tick` ""quote"" 'q'
+= //	t
+""""
+    ; u8x = zchar[0  ] }
+int
+    MetaData {zchar[ 10]
+lengthOf	`` , i64 u8x`// not a comment` ,MetaDataX pack// `tick` ""quote"" 'q'
+`crlf
+line`
+, Logon charz `crlf
+line`
+    ,
+    // a // b
+    }
+")).
+Eval vm_compute in ("<<<M1479>>>" ++ check (runes_of_ascii "root packet Foo // " ++ [128512]%N ++ runes_of_ascii " emoji
+{ } options {
+    // a // b
+    tag // `tick` ""quote"" 'q'
+= //	t
+""""
+    ; u8x = zchar[  ] }
+MetaData
+    int {zchar[ 10]
+lengthOf	`` , i64 u8x`// not a comment` ,MetaDataX pack// `tick` ""quote"" 'q'
+`crlf
+line`
+, Logon charz `crlf
+line`
+    ,
+    // a // b
+    }
+")).
+Eval vm_compute in ("<<<M1544>>>" ++ check (runes_of_ascii "root packet Foo // " ++ [128512]%N ++ runes_of_ascii " emoji
+{ } options {
+    // a // b
+    tag // `tick` ""quote"" 'q'
+= //	t
+""""
+    ; u8x = zchar[0  ] }
+MetaData
+    int {zchar[ 10]
+lengthOf	`` , i64 `// not a comment` ,MetaDataX pack// `tick` ""quote"" 'q'
+`crlf
+line`
+, Logon charz `crlf
+line`
+    ,
+    // a // b
+    }
+")).
+Eval vm_compute in ("<<<M224>>>" ++ check (runes_of_ascii "packet MetaDataX {	int64 x_y_z //
+@calculatedFrom( ""// no comment""
+// packet A { u8 x, }
+// `tick` ""quote"" 'q'
+)
+, }	MetaData int { u16 // packet A { u8 x, }
+roots , zchar[ 7 // " ++ [27880; 37322]%N ++ runes_of_ascii "
+]u8x ,  int16 //x
+Logon, } MetaData i64_ // a // b
+{// c
+zchar[ 1 ] // `tick` ""quote"" 'q'
+crc	, }
+
+")).
+Eval vm_compute in ("<<<M988>>>" ++ check (runes_of_ascii "root packet pack { zchar[00	] falsey
+// trailing space 
+// " ++ [27880; 37322]%N ++ runes_of_ascii "
+, // " ++ [27880; 37322]%N ++ runes_of_ascii "
+leftPad, uint64 stringy @calculatedFrom(""\n"") // " ++ [27880; 37322]%N ++ runes_of_ascii "
+`" ++ [28040; 24687; 31867; 22411]%N ++ runes_of_ascii "` ,}
+root packet
+    pack {@tag(
+    65535
+    // " ++ [27880; 37322]%N ++ runes_of_ascii "
+    ) zchar[  007//x
+]
+    uint8x `crlf
+line`
+, }
+options { Header
+    =//	t
+""CRC32"" ;
+}")).
+Eval vm_compute in ("<<<M3495>>>" ++ check (runes_of_ascii "packet P1 {
+    u8 a,
+}
+packet P2 {
+    P1,
+}
+packet P3 {
+    P2,
+    P1,
+}
+packet P4 {
+    repeat P3,
+    P2,
+}
+root packet P5 {
+    P4,
+    P3,
+    P1,
+    u8 K,
+    match K as Body {
+        4 : P4,
+        3 : P3,
+        2 : P2,
+        1 : P1,
+    },
+}
+")).
+Eval vm_compute in ("<<<M4071>>>" ++ check (runes_of_ascii "root packet Foo {
+}
+
+options {
+    // a // b
+    tag = """";
+    u8x = zchar[0]
+}
+
+MetaData int {
+    zchar[10] lengthOf ``,
+    i64 u8x `// not a comment`,
+    MetaDataX pack `crlf
+        line`,
+    Logon charz `crlf
+        " ++ [8232]%N ++ runes_of_ascii "line`,
+    // a // b
+}")).
+Eval vm_compute in ("<<<M297>>>" ++ check (runes_of_ascii "
+packet As
+{
+} MetaData Logon { i16 falsey
+`a\` // `tick` ""quote"" 'q'
+, } MetaData T { f64 uint8x `u8 x,` , // " ++ [128512]%N ++ runes_of_ascii " emoji
+char[	00 // @lengthOf(
+] T , char[
+    0
+    ]
+Pad
+// c
+// c
+`crlf
+line` , char[]
+    f32a ,
+char[] asx
+    , } //	t")).
+Eval vm_compute in ("<<<M1392>>>" ++ check (runes_of_ascii "MetaData matchKey// `tick` ""quote"" 'q'
+{ metadata u8x
+    ,int8 chars ,
+// @lengthOf(
+//
+MetaDataX u128``
+, }MetaData As{ uint8x
+u , u32
+falsey `" ++ [28040; 24687; 31867; 22411]%N ++ runes_of_ascii "` ,
+zchar[ 1 ] tag ,
+    zchar[ 0 ] float
+,
+char[]  metadata
+, } // @lengthOf(")).
+Eval vm_compute in ("<<<M1388>>>" ++ check (runes_of_ascii "options{ roots =0123456789; body = int64
+repeatCount = ""// no comment""
+; pack  =
+""abc""
+    ;charz =// " ++ [27880; 37322]%N ++ runes_of_ascii "
+string ;
+/// triple
+// " ++ [128512]%N ++ runes_of_ascii " emoji
+}
+packet //
+trueish{ @calculatedFrom( ""a	b""	) repeat u16 As
+    `" ++ [233]%N ++ runes_of_ascii "` // " ++ [128512]%N ++ runes_of_ascii " emoji
+, }
+")).
+Eval vm_compute in ("<<<M2338>>>" ++ check (runes_of_ascii "MetaData Packet { }packet	asx  { @lengthOf( asx) falsey`crlf
+line`
+,
+    }
+    packet x	{uint32// @lengthOf(
+rootA	,u32 options1 `say ""hi""` , @tag( @tag(
+    )// packet A { u8 x, }
+msg_type @lengthOf(
+stringy	)	, }
+
+")).
+Eval vm_compute in ("<<<M2302>>>" ++ check (runes_of_ascii "MetaData Packet { }packet	asx  { @lengthOf( asx) falsey`crlf
+line`
+,
+    }
+    packet x	{uint32// @lengthOf(
+,	rootA u32 options1 `say ""hi""` , @tag( 7
+    )// packet A { u8 x, }
+msg_type @lengthOf(
+stringy	)	, }
+
+")).
+Eval vm_compute in ("<<<M2297>>>" ++ check (runes_of_ascii "MetaData Packet { }packet	asx  { @lengthOf( asx) falsey`crlf
+line`
+,
+    }
+    packet x	{rootA// @lengthOf(
+uint32	,u32 options1 `say ""hi""` , @tag( 7
+    )// packet A { u8 x, }
+msg_type @lengthOf(
+stringy	)	, }
+
+")).
+Eval vm_compute in ("<<<M2340>>>" ++ check (runes_of_ascii "MetaData Packet { }packet	asx  { @lengthOf( asx) falsey`crlf
+line`
+,
+    }
+    packet x	{uint32// @lengthOf(
+rootA	,u32 options1 `say ""hi""` , @tag( 7
+    // packet A { u8 x, }
+msg_type @lengthOf(
+stringy	)	, }
+
+")).
+Eval vm_compute in ("<<<M2230>>>" ++ check (runes_of_ascii "MetaData Packet { }	asx  { @lengthOf( asx) falsey`crlf
+line`
+,
+    }
+    packet x	{uint32// @lengthOf(
+rootA	,u32 options1 `say ""hi""` , @tag( 7
+    )// packet A { u8 x, }
+msg_type @lengthOf(
+stringy	)	, }
+
+")).
+Eval vm_compute in ("<<<M2350>>>" ++ check (runes_of_ascii "MetaData Packet { }packet	asx  { @lengthOf( asx) falsey`crlf
+line`
+,
+    }
+    packet x	{uint32// @lengthOf(
+rootA	,u32 options1 `say ""hi""` , @tag( 7
+    )// packet A { u8 x, }
+msg_type 
+stringy	)	, }
+
+")).
+Eval vm_compute in ("<<<M680>>>" ++ check (runes_of_ascii "packet len{} options{
+o =
+uint32 ;
+    uint8x
+= 65535
+    // trailing space 
+    ; crc =
+    true ;
+    tag=
+// " ++ [27880; 37322]%N ++ runes_of_ascii "
+// a // b
+i16 ; } packet
+// `tick` ""quote"" 'q'
+// " ++ [128512]%N ++ runes_of_ascii " emoji
+u8x
+{ pack body ,  }
+")).
+Eval vm_compute in ("<<<M4053>>>" ++ check (runes_of_ascii "MetaData stringy
+    {
+zchar[
+    255 
+]
+    u
+	`
+`  , 	 // packet A { u8 x, }
+
+	string repeatCount ,As  i8i8
+`{ , }`
+
+    ,string
+    x_y_z 
+
+    // c
+	, uint16 Pad	, uint32
+asx
+,
+}
+
+")).
+Eval vm_compute in ("<<<M4262>>>" ++ check (runes_of_ascii "
+root packet  chars
+
+    { repeat
+    a1  { trueish	x `" ++ [28040; 24687; 31867; 22411]%N ++ runes_of_ascii "` ,	},
+
+    }
+    MetaData
+metadata {
+	int32
+	int ,
+f64
+
+uint8x
+    `say ""hi""` //
+
+,
+
+i64
+
 rootA
-i64_ ,	} options
-{ rootA=
-    zchar[ 0
-] }")).
-Eval vm_compute in ("<<<M825>>>" ++ check (runes_of_ascii "
-packet string_ { @calculatedFrom( ""abc"" ) @calculatedFrom(""" ++ [28040; 24687]%N ++ runes_of_ascii """ ) @rightPad (
+
+`crlf
+line`  ,
+
+}")).
+Eval vm_compute in ("<<<M3468>>>" ++ check (runes_of_ascii "packet A {
+    u8 a,
+}
+packet B {
+    u16 b,
+}
+root packet P {
+    u8 K1,
+    u8 K2,
+    match K1 as M1 {
+        1 : A,
+    },
+    match K2 as M2 {
+        1 : B,
+    },
+}
+")).
+Eval vm_compute in ("<<<M3832>>>" ++ check (runes_of_ascii "MetaData stringy {
+    zchar[255] u `
+        `,// packet A { u8 x, }
+    string repeatCount,
+    As i8i8 `{ , }`,
+    string x_y_z,
+    uint16 Pad,
+    uint32 asx,
+}")).
+Eval vm_compute in ("<<<M4179>>>" ++ check (runes_of_ascii "
+
+  packet
+
+    string_  { @calculatedFrom(  ""abc""
+)
+
+    @calculatedFrom(
+    """ ++ [28040; 24687]%N ++ runes_of_ascii """ )
+
+@rightPad( 
 //	t
 // packet A { u8 x, }
-'0'
-    )crc len `tab	here`
+'0'	)crc len `tab	here`
+
+,	} ")).
+Eval vm_compute in ("<<<M3734>>>" ++ check (runes_of_ascii "// c
+packet f32a {
+}
+
+MetaData rootA {
+    zchar[007] As,
+    A u,
+    a1 A,
+}
+
+root packet Logon {
+    @tag(1)
+    x_y_z {
+        repeat u _x,
+    },
+}")).
+Eval vm_compute in ("<<<M119>>>" ++ check (runes_of_ascii "MetaData  trueish {
+    chars	u8x // trailing space 
 ,
+A chars ,i8i8 asx `tab	here`
+    ,char[ 3 ]
+body	`" ++ [233]%N ++ runes_of_ascii "`,
+    zchar[	00	]
+u128 ,
 }
+/// triple
 ")).
-Eval vm_compute in ("<<<M1013>>>" ++ check (runes_of_ascii "MetaData string_ { char[0123456789 ]
-Pad	,u128 // " ++ [27880; 37322]%N ++ runes_of_ascii "
-Header`` ,Foo u8x ,	leftPad
-    trueish
-, char[
-    /// triple
-    1 ]
-i64_,
-}
-")).
-Eval vm_compute in ("<<<M1698>>>" ++ check (runes_of_ascii "root packet /// triple
-rootA {	i32
-MetaDataX@calculatedFrom( ""CRC32"" ) `line1
-line2` , } MetaData BodyLength {
-u8 u8
-rootA, } // c")).
-Eval vm_compute in ("<<<M1729>>>" ++ check (runes_of_ascii "root packet /// triple
-rootA {	i32
-MetaDataX@calculatedFrom( ""CRC32"" ) `line1
-line2` , } MetaData BodyLength {
-u8
-'rootA, } // c")).
-Eval vm_compute in ("<<<M894>>>" ++ check (runes_of_ascii "options
-{ As= string u =
-    """ ++ [233]%N ++ runes_of_ascii "t" ++ [233]%N ++ runes_of_ascii """
-} packet string_	{ @tag( 3) int32 As ,
-} root packet stringy { //x
-string int,}
-options{  }")).
-Eval vm_compute in ("<<<M1636>>>" ++ check (runes_of_ascii "root packet /// triple
-as {	i32
-MetaDataX@calculatedFrom( ""CRC32"" ) `line1
-line2` , } MetaData BodyLength {
-u8
-rootA, } // c")).
-Eval vm_compute in ("<<<M1841>>>" ++ check (runes_of_ascii "packet
-    Pad // a // b
-{ i8i8 @calculatedFrom( ""a	b"") `u8 x,` ,
-} options{ float float// " ++ [128512]%N ++ runes_of_ascii " emoji
-= f64 i64_
-=//	t
-00 }
-")).
-Eval vm_compute in ("<<<M1009>>>" ++ check (runes_of_ascii "options
-{
-// @lengthOf(
-// " ++ [27880; 37322]%N ++ runes_of_ascii "
-Logon	= char[007 ] matchKey =char[7 // " ++ [128512]%N ++ runes_of_ascii " emoji
-] string_= ""1"" ; msg_type
-=
-    ""\" ++ [233]%N ++ runes_of_ascii """ ;} 	 ")).
-Eval vm_compute in ("<<<M3658>>>" ++ check (runes_of_ascii "packet Logon{ 
-@tag(
-42)
-	@rightPad  (' '
+Eval vm_compute in ("<<<M4145>>>" ++ check (runes_of_ascii "
+
+  packet
+
+Logon {	@tag(
+42
+    )
+
+    @rightPad 
+        // c
+    (  ' ' 
 )
-    @leftPad  (
 
-    )repeat trueish{
-string
-    T
+    @leftPad (
+) 
+repeat
+
+trueish	{
+	string
+
+    T,
+},}
+")).
+Eval vm_compute in ("<<<M1508>>>" ++ check (runes_of_ascii "root packet Foo // " ++ [128512]%N ++ runes_of_ascii " emoji
+{ } options {
+    // a // b
+    tag // `tick` ""quote"" 'q'
+= //	t
+""""
+    ; u8x = zchar[0  ] }
+MetaData
+    int")).
+Eval vm_compute in ("<<<M3186>>>" ++ check (runes_of_ascii "// top
+MetaData
+    // c0
+zchar
+    // c1
+{
+    // c2
+zchar[
+    // c3
+3
+    // c4
+]
+    // c5
+Pad
+    // c6
 ,
+    // c7
 }
-    , }
-
-    // c")).
-Eval vm_compute in ("<<<M1807>>>" ++ check (runes_of_ascii "packet
+    // c8
+")).
+Eval vm_compute in ("<<<M1678>>>" ++ check (runes_of_ascii "root packet /// triple
+rootA {	i32
+MetaDataX@calculatedFrom( ""CRC32"" ) `line1
+line2` , } } MetaData BodyLength {
+u8
+rootA, } // c")).
+Eval vm_compute in ("<<<M1669>>>" ++ check (runes_of_ascii "root packet /// triple
+rootA {	i32
+MetaDataX@calculatedFrom( ""CRC32"" ) , `line1
+line2` } MetaData BodyLength {
+u8
+rootA, } // c")).
+Eval vm_compute in ("<<<M3841>>>" ++ check (runes_of_ascii "packet A {
+    match k as n {
+        [
+            1, 22, 007, 4, 5,
+            66, 7
+        ] : B,
+        2 : C,
+    },
+}")).
+Eval vm_compute in ("<<<M3022>>>" ++ check (runes_of_ascii "packet A {
+    u16 len @lengthOf(body) `a
+    b
+  c`,
+    u32 crc @calculatedFrom(""CRC32"") `a
+    b
+  c`,
+    string body,
+}")).
+Eval vm_compute in ("<<<M1346>>>" ++ check (runes_of_ascii "MetaData
+    Logon {string
+uint8x , msg_type
+    Z9_  `{ , }`
+    , f64 As`it's`
+//x
+// packet A { u8 x, }
+, uint8	o , }
+")).
+Eval vm_compute in ("<<<M1498>>>" ++ check (runes_of_ascii "root packet Foo // " ++ [128512]%N ++ runes_of_ascii " emoji
+{ } options {
+    // a // b
+    tag // `tick` ""quote"" 'q'
+= //	t
+""""
+    ; u8x = zchar[0  ] }")).
+Eval vm_compute in ("<<<M1888>>>" ++ check (runes_of_ascii "packet
     Pad // a // b
-{ i8i8 @calculatedFrom( )""a	b"" `u8 x,` ,
+{ i8i8 @calcul" ++ [8232]%N ++ runes_of_ascii "atedFrom( ""a	b"") `u8 x,` ,
 } options{ float// " ++ [128512]%N ++ runes_of_ascii " emoji
 = f64 i64_
 =//	t
 00 }
 ")).
-Eval vm_compute in ("<<<M1894>>>" ++ check (runes_of_ascii "packet
+Eval vm_compute in ("<<<M1852>>>" ++ check (runes_of_ascii "packet
     Pad // a // b
 { i8i8 @calculatedFrom( ""a	b"") `u8 x,` ,
-} options{ " ++ [252]%N ++ runes_of_ascii "ber// " ++ [128512]%N ++ runes_of_ascii " emoji
-= f64 i64_
+} options{ float// " ++ [128512]%N ++ runes_of_ascii " emoji
+= i64_ f64
 =//	t
 00 }
 ")).
-Eval vm_compute in ("<<<M3715>>>" ++ check (runes_of_ascii "
-options	{
+Eval vm_compute in ("<<<M358>>>" ++ check (runes_of_ascii "MetaData Packet { u128  u128 `say ""hi""` ,
+    // @lengthOf(
+    zchar
+    len ,
+Pad T `say ""hi""` // " ++ [128512]%N ++ runes_of_ascii " emoji
+,
+}
+")).
+Eval vm_compute in ("<<<M4475>>>" ++ check (runes_of_ascii "MetaData
+u
 
-    } packet	u128
-	{	repeat	uint8x x	`say ""hi""` , 	 // trailing space 
+{
+    stringy
+metadata `// not a comment`
+
+    , u8
+	len  ,
+	_x
+    a1  ,
+string	Z9_
+
+    ,  }
+")).
+Eval vm_compute in ("<<<M3000>>>" ++ check (runes_of_ascii "packet A {
+  match k as n {
+    [""a"", ""bb"", 007, ""d"", ""e"", 66, ""g"", ""h"", 9, ""j"", ""k"", 12] : B
+    2 : C
+  },
+}")).
+Eval vm_compute in ("<<<M3848>>>" ++ check (runes_of_ascii "  packet
+	Logon
+
+{ @tag(42 ) 
+@rightPad
+    ( 	 // c
+  ' '
+) @leftPad()  repeat
+	trueish 
+{string  T, },
+	}")).
+Eval vm_compute in ("<<<M3375>>>" ++ check (runes_of_ascii "packet calculatedFrom { @tag( 4294967296 ) u msg_type , char[ 3 ] crc @lengthOf( len ) `u8 x,` , } // c
+")).
+Eval vm_compute in ("<<<M3356>>>" ++ check (runes_of_ascii "packet calculatedFrom { @tag( 4294967296 ) u msg_type ,
+// c
+char[ 3 ] crc @lengthOf( len ) `u8 x,` , }")).
+Eval vm_compute in ("<<<M4409>>>" ++ check (runes_of_ascii "
+packet A  {
+
+    B
+b
+`a
+    b
+  c`
+
+    ,
+    B 
+`a
+    b
+  c`  ,
+
+repeat
+B bs`a
+    b
+  c` , }")).
+Eval vm_compute in ("<<<M1125>>>" ++ check (runes_of_ascii "
+packet	crc{
+    match // trailing space 
+x_y_z
+    as Z9_{ [ 00 ]:asx }, } root packet x_y_z {}
+")).
+Eval vm_compute in ("<<<M3799>>>" ++ check (runes_of_ascii "packet  A
+
+    {  Logon {	repeat
+
+    char[
+42 ]	falsey
+
+`a\` ,
+	repeat int32	T
+,
+    } ,	}
+")).
+Eval vm_compute in ("<<<M3232>>>" ++ check (runes_of_ascii "packet Logon { @tag( 42 ) @rightPad ( ' ' // c
+) @leftPad ( ) repeat trueish { string T , } , }")).
+Eval vm_compute in ("<<<M1375>>>" ++ check (runes_of_ascii "options	{
+    repeatCount='0'
+    roots =
+""\" ++ [233]%N ++ runes_of_ascii """  ;int =
+f64
+Packet =
+'\x00' ;
+Z9_ = ""a\""b"" ; }")).
+Eval vm_compute in ("<<<M4203>>>" ++ check (runes_of_ascii "options {
+    Header = true;
+    pack = ""{,}"";
 }
 
-    MetaData crc {
-	}
-
-")).
-Eval vm_compute in ("<<<M2979>>>" ++ check (runes_of_ascii "packet A {
-  match k as n {
-    [""a"", ""bb"", ""c c"", ""d"", ""e"", ""f"", ""g"", ""h"", ""i"", ""j"", ""k""] : B
-    2 : C
-  },
-}")).
-Eval vm_compute in ("<<<M2377>>>" ++ check (runes_of_ascii "MetaData Packet { }packet	asx  { @lengthOf( asx) falsey`crlf
-line`
-,
-    }
-    packet x	{uint32// @lengthO")).
-Eval vm_compute in ("<<<M4476>>>" ++ check (runes_of_ascii "
-
-  packet  
-  // c
-	o 
-{
-@tag( 42) repeat
-x  {char[
-0123456789 ]
-
-i64_,}
-,  }
-
-options
-	{
-
-    }
-
-")).
-Eval vm_compute in ("<<<M3349>>>" ++ check (runes_of_ascii "packet calculatedFrom { @tag( 4294967296 ) // c
-u msg_type , char[ 3 ] crc @lengthOf( len ) `u8 x,` , }")).
-Eval vm_compute in ("<<<M1093>>>" ++ check (runes_of_ascii "MetaData
-    f32a  { u8
-    roots`doc`  , zchar[ 7 ] uint8x ,
-    matchKey
-    u128 `tab	here` ,
-    }")).
-Eval vm_compute in ("<<<M407>>>" ++ check (runes_of_ascii "// `tick` ""quote"" 'q'
-packet As { u64 msg_type
-,@lengthOf(
-trueish  ) lengthOf
-    int`a\` , //
-}")).
-Eval vm_compute in ("<<<M3258>>>" ++ check (runes_of_ascii "packet Logon { @tag( 42 ) @rightPad ( ' ' ) @leftPad ( ) repeat trueish { string T , } , } // c
-")).
-Eval vm_compute in ("<<<M3231>>>" ++ check (runes_of_ascii "packet Logon { @tag( 42 ) @rightPad (
-// c
-' ' ) @leftPad ( ) repeat trueish { string T , } , }")).
-Eval vm_compute in ("<<<M548>>>" ++ check (runes_of_ascii "packet leftPad { char[] MetaDataX `crlf
-line` , f32 pack @calculatedFrom(	""a\\"" ) `" ++ [28040; 24687; 31867; 22411]%N ++ runes_of_ascii "` , }
-")).
-Eval vm_compute in ("<<<M339>>>" ++ check (runes_of_ascii "MetaData Z9_ {
-//	t
-// " ++ [27880; 37322]%N ++ runes_of_ascii "
-u128 Foo  , lengthOf uint8x
-    // " ++ [128512]%N ++ runes_of_ascii " emoji
-    `say ""hi""` ,
-    }")).
-Eval vm_compute in ("<<<M2944>>>" ++ check (runes_of_ascii "packet A {
-  match k as n {
-    [""a"", 22, ""c c"", 4, ""e"", 66, ""g"", 8] : B
-    2 : C
-  },
-}")).
-Eval vm_compute in ("<<<M3171>>>" ++ check (runes_of_ascii "packet A { match k as n // a
- { // b
- 1 // c
- : // d
- B // e
- , // f
- } // g
- , // h
- }")).
-Eval vm_compute in ("<<<M1988>>>" ++ check (runes_of_ascii "root
-packet crc
-    { f32a @calculatedFrom( ) """ ++ [233]%N ++ runes_of_ascii "t" ++ [233]%N ++ runes_of_ascii """
-    `say ""hi""`, lengthOf `` ,  }")).
-Eval vm_compute in ("<<<M908>>>" ++ check (runes_of_ascii "packet T {
-    @lengthOf(As )
-u8x `tab	here` ,	} MetaData f32a {
-uint64 trueish , }")).
-Eval vm_compute in ("<<<M2918>>>" ++ check (runes_of_ascii "packet A {
-  match k as n {
-    [""a"", 22, ""c c"", 4, ""e"", 66] : B
-    2 : C
-  },
-}")).
-Eval vm_compute in ("<<<M3322>>>" ++ check (runes_of_ascii "packet o { @tag( 42 ) repeat x { char[ 0123456789 ] i64_ , } // c
-, } options { }")).
-Eval vm_compute in ("<<<M889>>>" ++ check (runes_of_ascii "options { // c
-matchKey= ""a\""b""	; a1
-=
-uint16
-charz
-=char[]
-a1	=u8; As = 00; }")).
-Eval vm_compute in ("<<<M40>>>" ++ check (runes_of_ascii "  root
-    packet falsey
-{}
+//
 /// triple
-// " ++ [27880; 37322]%N ++ runes_of_ascii "
-options {}
-// trailing space 
-")).
-Eval vm_compute in ("<<<M1302>>>" ++ check (runes_of_ascii "MetaData f32a {
-    int64 rootA
-`tab	here`, }packet
-    msg_type{
-} // " ++ [27880; 37322]%N)).
-Eval vm_compute in ("<<<M3184>>>" ++ check (runes_of_ascii "packet A {
+options {
+    i8i8 = false
+}")).
+Eval vm_compute in ("<<<M1967>>>" ++ check (runes_of_ascii "root
+packet crc crc
+    { f32a @calculatedFrom( """ ++ [233]%N ++ runes_of_ascii "t" ++ [233]%N ++ runes_of_ascii """ )
+    `say ""hi""`, lengthOf `` ,  }")).
+Eval vm_compute in ("<<<M2022>>>" ++ check (runes_of_ascii "root
+packet crc
+    { f32a @calculatedFrom( """ ++ [233]%N ++ runes_of_ascii "t" ++ [233]%N ++ runes_of_ascii """ )
+    `say ""hi""`, lengthOf `` ,  } }")).
+Eval vm_compute in ("<<<M2044>>>" ++ check (runes_of_ascii "root
+packet crc
+    { na" ++ [239]%N ++ runes_of_ascii "ve @calculatedFrom( """ ++ [233]%N ++ runes_of_ascii "t" ++ [233]%N ++ runes_of_ascii """ )
+    `say ""hi""`, lengthOf `` ,  }")).
+Eval vm_compute in ("<<<M3679>>>" ++ check (runes_of_ascii "packet A {
     match k as n {
-        1 : B // c
-        , // d
+        [""a"", ""bb"", ""c c""] : B,
+        2 : C,
     },
 }")).
-Eval vm_compute in ("<<<M3393>>>" ++ check (runes_of_ascii "// c
-MetaData _x { zchar[ 4294967296 ] lengthOf `// not a comment` , }")).
-Eval vm_compute in ("<<<M3458>>>" ++ check (runes_of_ascii "root packet P {
-    u16 a,
-    u32 Sum @calculatedFrom(""CR\
-C32""),
-}
-")).
-Eval vm_compute in ("<<<M930>>>" ++ check (runes_of_ascii "MetaData u8x{  char[ 0123456789 ]T  ,} options
-    {roots =
-u64 ; }")).
-Eval vm_compute in ("<<<M2835>>>" ++ check (runes_of_ascii "string , ( i16 @lengthOf( uint64 : string char[ repeat true zchar[")).
-Eval vm_compute in ("<<<M2866>>>" ++ check (runes_of_ascii "packet A {
+Eval vm_compute in ("<<<M4411>>>" ++ check (runes_of_ascii "packet A {
+    match k as n {
+        [""a"", ""bb"", 007] : B,
+        2 : C,
+    },
+}")).
+Eval vm_compute in ("<<<M3299>>>" ++ check (runes_of_ascii "packet o {
+// c
+@tag( 42 ) repeat x { char[ 0123456789 ] i64_ , } , } options { }")).
+Eval vm_compute in ("<<<M3331>>>" ++ check (runes_of_ascii "packet o { @tag( 42 ) repeat x { char[ 0123456789 ] i64_ , } , } options {
+// c
+}")).
+Eval vm_compute in ("<<<M2924>>>" ++ check (runes_of_ascii "packet A {
   match k as n {
-    [""a"", ""bb""] : B
+    [1, 22, 007, 4, 5, 66, 7] : B,
     2 : C
   },
 }")).
-Eval vm_compute in ("<<<M4412>>>" ++ check (runes_of_ascii "
-
-  root  packet
-
-P
-
-    {hdr 
-{
-u8
-a
-
-,
-	}	, u8
-
-x
-
-,
-}
-")).
-Eval vm_compute in ("<<<M3700>>>" ++ check (runes_of_ascii "
-MetaData
-
-    zchar{  
-  // c
-    zchar[3
-    ]Pad ,  }
-
-")).
-Eval vm_compute in ("<<<M4101>>>" ++ check (runes_of_ascii "packet tag {
-    @tag(007)
-    @tag(007)
-    u T `it's`,
+Eval vm_compute in ("<<<M4057>>>" ++ check (runes_of_ascii "MetaData M {
+    u8 x `a
+        b
+      c`,
+    T t `a
+        b
+      c`,
 }")).
-Eval vm_compute in ("<<<M1947>>>" ++ check (runes_of_ascii "
-packet	As { @calculatedFrom(//x
-""{,}""	" ++ [233]%N ++ runes_of_ascii ")lengthOf , } 	 ")).
-Eval vm_compute in ("<<<M277>>>" ++ check (runes_of_ascii "  MetaData/// triple
-pack{
-i64 Header
-, u64
+Eval vm_compute in ("<<<M999>>>" ++ check (runes_of_ascii "
+MetaData
 As
-,
-}
+{Foo len,
+} root packet Foo { Foo x , // `tick` ""quote"" 'q'
+}")).
+Eval vm_compute in ("<<<M2890>>>" ++ check (runes_of_ascii "packet A {
+  match k as n {
+    [1, ""bb"", 007, ""d""] : B
+    2 : C
+  },
+}")).
+Eval vm_compute in ("<<<M2882>>>" ++ check (runes_of_ascii "packet A {
+  match k as n {
+    [""a"", ""bb"", 007] : B,
+    2 : C
+  },
+}")).
+Eval vm_compute in ("<<<M2162>>>" ++ check (runes_of_ascii "root
+    // `tick` ""quote"" 'q'
+    packet As As { trueish Packet , }
 ")).
-Eval vm_compute in ("<<<M356>>>" ++ check (runes_of_ascii "packet
-    x_y_z {
-i8 As@calculatedFrom(""a	b""	)  ,}")).
-Eval vm_compute in ("<<<M3651>>>" ++ check (runes_of_ascii "root packet
+Eval vm_compute in ("<<<M2949>>>" ++ check (runes_of_ascii "packet A { Inner { match k as n { [1,22,007,4,5,66,7,8] : B, }, }, }")).
+Eval vm_compute in ("<<<M2183>>>" ++ check (runes_of_ascii "root
+    // `tick` ""quote"" 'q'
+    packet As { trueish Packet } ,
+")).
+Eval vm_compute in ("<<<M1926>>>" ++ check (runes_of_ascii "
+packet	As { @calculatedFrom(//x
+""{,}""	)lengthOf lengthOf , } 	 ")).
+Eval vm_compute in ("<<<M2868>>>" ++ check (runes_of_ascii "packet A {
+  match k as n {
+    [1, ""bb""] : B
+    2 : C
+  },
+}")).
+Eval vm_compute in ("<<<M4477>>>" ++ check (runes_of_ascii "packet _x {
+    repeat crc {
+        char[7] float,
+    },
+}")).
+Eval vm_compute in ("<<<M4087>>>" ++ check (runes_of_ascii "
+root	packet 
+P	{ repeat
+char
+    cs
 
-    P	{repeat 
-char cs,
-
-u8
-	x , } ")).
-Eval vm_compute in ("<<<M2400>>>" ++ check (runes_of_ascii "MetaData [
+    , u8
+x  ,
+} ")).
+Eval vm_compute in ("<<<M1819>>>" ++ check (runes_of_ascii "packet
+    Pad // a // b
+{ i8i8 @calculatedFrom( ""a	b"")")).
+Eval vm_compute in ("<<<M1920>>>" ++ check (runes_of_ascii "
+packet	As { @calculatedFrom(//x
+""{,}""	lengthOf , } 	 ")).
+Eval vm_compute in ("<<<M475>>>" ++ check (runes_of_ascii "packet i64_{@calculatedFrom( ""\" ++ [233]%N ++ runes_of_ascii """
+    )u16 a1
+, }
+")).
+Eval vm_compute in ("<<<M4416>>>" ++ check (runes_of_ascii "MetaData lengthOf {
+    i64 matchKey `say ""hi""`,
+}")).
+Eval vm_compute in ("<<<M2416>>>" ++ check (runes_of_ascii "A MetaData
 {
 i64
 chars	, } // `tick` ""quote"" 'q'")).
-Eval vm_compute in ("<<<M3012>>>" ++ check (runes_of_ascii "MetaData M {
-    u8 x `a
-b`,
-    T t `a
-b`,
-}")).
-Eval vm_compute in ("<<<M1754>>>" ++ check (runes_of_ascii "options { }{ options  } // `tick` ""quote"" 'q'")).
-Eval vm_compute in ("<<<M1155>>>" ++ check (runes_of_ascii "MetaData	u8x {
-// a // b
-// c
-chars crc, }
-")).
-Eval vm_compute in ("<<<M4429>>>" ++ check (runes_of_ascii "
+Eval vm_compute in ("<<<M3707>>>" ++ check (runes_of_ascii "options {
+}
 
-  // trailing space 
-    	options {
-	}
+options {
+}// `tick` ""quote"" 'q'\ ")).
+Eval vm_compute in ("<<<M1744>>>" ++ check (runes_of_ascii "options } {options {  } // `tick` ""quote"" 'q'")).
+Eval vm_compute in ("<<<M4451>>>" ++ check (runes_of_ascii "MetaData body {
+}// c
+
+options {
+    // " ++ [27880; 37322]%N ++ runes_of_ascii "
+}")).
+Eval vm_compute in ("<<<M2152>>>" ++ check (runes_of_ascii "MetaData na" ++ [239]%N ++ runes_of_ascii "ve
+{// " ++ [128512]%N ++ runes_of_ascii " emoji
+i16 stringy , }")).
+Eval vm_compute in ("<<<M950>>>" ++ check (runes_of_ascii "MetaData matchKey{Packet As//	t
+`" ++ [233]%N ++ runes_of_ascii "` , }
 ")).
-Eval vm_compute in ("<<<M1160>>>" ++ check (runes_of_ascii "packet tag
-//x
-// " ++ [128512]%N ++ runes_of_ascii " emoji
-{ }
-// a // b
-")).
-Eval vm_compute in ("<<<M3200>>>" ++ check (runes_of_ascii "MetaData zchar { zchar[ 3 ] // c
-Pad , }")).
+Eval vm_compute in ("<<<M3199>>>" ++ check (runes_of_ascii "MetaData zchar { zchar[ 3
+// c
+] Pad , }")).
 Eval vm_compute in ("<<<M170>>>" ++ check (runes_of_ascii "options { Foo
     //	t
     = string }
 ")).
-Eval vm_compute in ("<<<M992>>>" ++ check (runes_of_ascii "packet As {	repeat uint64
-Foo
-    , }")).
-Eval vm_compute in ("<<<M3020>>>" ++ check (runes_of_ascii "packet A {
-    u8 x `a
-    b
-  c`,
+Eval vm_compute in ("<<<M345>>>" ++ check (runes_of_ascii "options
+{ Logon = //x
+'\x00'
+    ; }
+")).
+Eval vm_compute in ("<<<M2823>>>" ++ check (runes_of_ascii "7cz/x~1=[HQ/x:A(ov&qJs5T2>9H=i|j3ta[")).
+Eval vm_compute in ("<<<M2787>>>" ++ check (runes_of_ascii ";/,8.Dx&ZOZt4UM$f5a6\qFvu)[+P_;Nc*")).
+Eval vm_compute in ("<<<M2714>>>" ++ check (runes_of_ascii "( char[] ] zchar[ Foo int32 int8")).
+Eval vm_compute in ("<<<M444>>>" ++ check (runes_of_ascii "packet
+//	t
+/// triple
+Z9_
+{ }")).
+Eval vm_compute in ("<<<M3735>>>" ++ check (runes_of_ascii "MetaData a1 {
+    // " ++ [128512]%N ++ runes_of_ascii " emoji
 }")).
-Eval vm_compute in ("<<<M2611>>>" ++ check (runes_of_ascii "packet A { match k as { 1 : B }, }")).
-Eval vm_compute in ("<<<M1804>>>" ++ check (runes_of_ascii "packet
-    Pad // a // b
-{ i8i8")).
-Eval vm_compute in ("<<<M3044>>>" ++ check (runes_of_ascii "packet A {
-    u8 x `tab
-	x`,
-}")).
-Eval vm_compute in ("<<<M3118>>>" ++ check (runes_of_ascii "packet A {
- u8 x `d" ++ [11]%N ++ runes_of_ascii "`, // c" ++ [11]%N ++ runes_of_ascii "
-}")).
-Eval vm_compute in ("<<<M2059>>>" ++ check (runes_of_ascii "MetaData A match u64 pack, }")).
-Eval vm_compute in ("<<<M2771>>>" ++ check (runes_of_ascii "yI^UB""SmPxS\Q^)mT~k`!;LS}q%")).
-Eval vm_compute in ("<<<M2774>>>" ++ check (runes_of_ascii "#" ++ [65533; 28; 65533; 65533]%N ++ runes_of_ascii "P9	" ++ [65533; 8; 65533]%N ++ runes_of_ascii "z" ++ [65533; 65533]%N ++ runes_of_ascii "(," ++ [65533; 65533; 65533; 65533]%N ++ runes_of_ascii " " ++ [22; 65533; 65533; 19]%N ++ runes_of_ascii "C")).
-Eval vm_compute in ("<<<M3389>>>" ++ check (runes_of_ascii "packet lengthOf { }
+Eval vm_compute in ("<<<M2688>>>" ++ check (runes_of_ascii "Li][ahWRkj9ULC5)4z,vi9B>n""<h")).
+Eval vm_compute in ("<<<M3150>>>" ++ check (runes_of_ascii "packet A {
+}// a// b// c
+")).
+Eval vm_compute in ("<<<M4037>>>" ++ check (runes_of_ascii "// c 
+	packet A
+    {  }
+")).
+Eval vm_compute in ("<<<M114>>>" ++ check (runes_of_ascii "//	t
+packet
+Logon { } 	 ")).
+Eval vm_compute in ("<<<M3280>>>" ++ check (runes_of_ascii "options { u8x = 3
 // c
-")).
-Eval vm_compute in ("<<<M3277>>>" ++ check (runes_of_ascii "options { u8x = // c
-3 }")).
-Eval vm_compute in ("<<<M4299>>>" ++ check (runes_of_ascii "MetaData BodyLength {
 }")).
-Eval vm_compute in ("<<<M925>>>" ++ check (runes_of_ascii "packet msg_type
-{ }
+Eval vm_compute in ("<<<M4165>>>" ++ check (runes_of_ascii "
+// packet A { u8 x, }
 ")).
-Eval vm_compute in ("<<<M2066>>>" ++ check (runes_of_ascii "MetaData A { u64 , }")).
-Eval vm_compute in ("<<<M2796>>>" ++ check (runes_of_ascii ", root as char[ o :")).
-Eval vm_compute in ("<<<M3071>>>" ++ check (runes_of_ascii "packet A {
+Eval vm_compute in ("<<<M1390>>>" ++ check (runes_of_ascii "MetaData
+Header	{  }
+")).
+Eval vm_compute in ("<<<M2617>>>" ++ check (runes_of_ascii "packet A { @tag(1) }")).
+Eval vm_compute in ("<<<M3126>>>" ++ check (runes_of_ascii "packet A {
 }
-// c" ++ [160]%N)).
-Eval vm_compute in ("<<<M3617>>>" ++ check (runes_of_ascii "MetaData charz {
+// c 	")).
+Eval vm_compute in ("<<<M3061>>>" ++ check (runes_of_ascii "packet A {
+}
+// c ")).
+Eval vm_compute in ("<<<M3142>>>" ++ check (runes_of_ascii "// c" ++ [6158]%N ++ runes_of_ascii "
+packet A {
 }")).
-Eval vm_compute in ("<<<M3109>>>" ++ check (runes_of_ascii "packet A {
-}// c" ++ [8287]%N)).
-Eval vm_compute in ("<<<M1188>>>" ++ check (runes_of_ascii "options {
-    }")).
-Eval vm_compute in ("<<<M717>>>" ++ check (runes_of_ascii "
-options { }
+Eval vm_compute in ("<<<M3094>>>" ++ check (runes_of_ascii "packet A {
+}// c" ++ [8232]%N)).
+Eval vm_compute in ("<<<M1156>>>" ++ check (runes_of_ascii "packet o
+{//x
+}")).
+Eval vm_compute in ("<<<M753>>>" ++ check (runes_of_ascii "options { }
 ")).
-Eval vm_compute in ("<<<M233>>>" ++ check (runes_of_ascii " // a // b")).
-Eval vm_compute in ("<<<M2463>>>" ++ check (runes_of_ascii "metadata")).
-Eval vm_compute in ("<<<M1789>>>" ++ check (runes_of_ascii "packet")).
-Eval vm_compute in ("<<<M2448>>>" ++ check (runes_of_ascii "true1")).
-Eval vm_compute in ("<<<M3140>>>" ++ check (runes_of_ascii "// c" ++ [6158]%N)).
-Eval vm_compute in ("<<<M1319>>>" ++ check (runes_of_ascii "
-
+Eval vm_compute in ("<<<M752>>>" ++ check (runes_of_ascii "options{}
 ")).
-Eval vm_compute in ("<<<M2807>>>" ++ check (runes_of_ascii "e-z")).
-Eval vm_compute in ("<<<M2503>>>" ++ check (runes_of_ascii """")).
+Eval vm_compute in ("<<<M2635>>>" ++ check (runes_of_ascii "packet A")).
+Eval vm_compute in ("<<<M2456>>>" ++ check (runes_of_ascii "string")).
+Eval vm_compute in ("<<<M2509>>>" ++ check (runes_of_ascii """a
+b""")).
+Eval vm_compute in ("<<<M2081>>>" ++ check (runes_of_ascii "Meta")).
+Eval vm_compute in ("<<<M2472>>>" ++ check (runes_of_ascii "'1'")).
+Eval vm_compute in ("<<<M2475>>>" ++ check (runes_of_ascii "'0")).
+Eval vm_compute in ("<<<M2675>>>" ++ check (runes_of_ascii "1")).
